@@ -29,13 +29,13 @@ Proof. intros H1 H2. constructor; assumption. Qed.
 (* ---------- a step that changes neither records, run counter, clock, outbox nor log, and emits only harmless tokens ---------- *)
 Definition quiet_step (s s' : ost) : Prop :=
   weq (o_w s) (o_w s') /\ w_log (o_w s') = w_log (o_w s) /\ w_outbox (o_w s') = w_outbox (o_w s) /\
-  o_plan s' = o_plan s /\
+  w_procs (o_w s') = w_procs (o_w s) /\ o_plan s' = o_plan s /\
   exists ts, Forall (fun t => tok_ok g t = true) ts /\ o_trace s' = ts ++ o_trace s.
 
 Lemma quiet_Inv (K : world -> Prop) s s' :
   stable K -> quiet_step s s' -> Inv s /\ K (o_w s) -> Inv s' /\ K (o_w s').
 Proof.
-  intros HK (Hw & Hl & Ho & Hp & (ts & Hts & Ht)) [(HW & Hn & Htr) HKs]. split; [|eapply HK; eauto].
+  intros HK (Hw & Hl & Ho & Hpr & Hp & (ts & Hts & Ht)) [(HW & Hn & Htr) HKs]. split; [|eapply HK; eauto].
   destruct Hw as (E1 & E2 & E3). split; [|split].
   - eapply WI_frame; eauto.
   - rewrite Hp. exact Hn.
@@ -47,7 +47,7 @@ Proof. repeat split; auto. exists []. split; [constructor|reflexivity]. Qed.
 
 Lemma quiet_trans s1 s2 s3 : quiet_step s1 s2 -> quiet_step s2 s3 -> quiet_step s1 s3.
 Proof.
-  intros ((A1 & A2 & A3) & B & C & D & (ts & Hts & E)) ((A1' & A2' & A3') & B' & C' & D' & (ts' & Hts' & E')).
+  intros ((A1 & A2 & A3) & B & C & C2 & D & (ts & Hts & E)) ((A1' & A2' & A3') & B' & C' & C2' & D' & (ts' & Hts' & E')).
   repeat split; try congruence.
   exists (ts' ++ ts). split; [apply Forall_app; split; assumption|]. rewrite E', E. now rewrite app_assoc.
 Qed.
@@ -93,10 +93,11 @@ Proof. destruct d; cbn; try apply quiet_ret; apply quiet_fail. Qed.
 (* state-only world updates outside records / run counter / clock / log / outbox *)
 Lemma quiet_state {A} (f : ost -> res A * ost) :
   (forall s, weq (o_w s) (o_w (snd (f s))) /\ w_log (o_w (snd (f s))) = w_log (o_w s) /\
-             w_outbox (o_w (snd (f s))) = w_outbox (o_w s) /\ o_plan (snd (f s)) = o_plan s /\ o_trace (snd (f s)) = o_trace s) ->
+             w_outbox (o_w (snd (f s))) = w_outbox (o_w s) /\ w_procs (o_w (snd (f s))) = w_procs (o_w s) /\
+             o_plan (snd (f s)) = o_plan s /\ o_trace (snd (f s)) = o_trace s) ->
   quiet (f : M A).
 Proof.
-  intros H s. destruct (H s) as (A1 & A2 & A3 & A4 & A5). repeat split; try apply A1; try assumption.
+  intros H s. destruct (H s) as (A1 & A2 & A3 & A3' & A4 & A5). repeat split; try apply A1; try assumption.
   exists []. split; [constructor|exact A5].
 Qed.
 
@@ -109,9 +110,9 @@ Proof. apply quiet_state. intros s. unfold ctr_clear. cbn. repeat split. Qed.
 Lemma quiet_lease_live : quiet lease_live.
 Proof. apply quiet_state. intros s. unfold lease_live. cbn. repeat split. Qed.
 Lemma quiet_put_w_same (f : world -> world) :
-  (forall w, weq w (f w) /\ w_log (f w) = w_log w /\ w_outbox (f w) = w_outbox w) ->
+  (forall w, weq w (f w) /\ w_log (f w) = w_log w /\ w_outbox (f w) = w_outbox w /\ w_procs (f w) = w_procs w) ->
   quiet (w <- get_w ;; put_w (f w)).
-Proof. intros H. apply quiet_state. intros s. cbn. destruct (H (o_w s)) as (A & B & C). repeat split; try apply A; assumption. Qed.
+Proof. intros H. apply quiet_state. intros s. cbn. destruct (H (o_w s)) as (A & B & C & D). repeat split; try apply A; assumption. Qed.
 
 (* ---------- the common shape of the adapter-call primitives ---------- *)
 Lemma prim_spec {A} k ctx T E (X : disp -> world -> M A) (s : ost) :
@@ -137,16 +138,1293 @@ Proof.
 Qed.
 
 Definition inert (E : world -> world) : Prop :=
-  forall w, weq w (E w) /\ w_log (E w) = w_log w /\ w_outbox (E w) = w_outbox w.
+  forall w, weq w (E w) /\ w_log (E w) = w_log w /\ w_outbox (E w) = w_outbox w /\ w_procs (E w) = w_procs w.
 
 Lemma quiet_prim {A} k ctx T E (X : disp -> world -> M A) :
   (forall d w, tok_ok g (T d w) = true) -> inert E -> (forall d w, quiet (X d w)) -> quiet (prim k ctx T E X).
 Proof.
   intros HT HE HX s. destruct (prim_spec k ctx T E X s) as (d & s1 & _ & W & P & Tr & R). rewrite R.
   eapply quiet_trans; [|apply HX].
-  destruct (HE (o_w s)) as (A1 & A2 & A3).
+  destruct (HE (o_w s)) as (A1 & A2 & A3 & A4).
   repeat split; try (rewrite W; destruct (disp_effect d); solve [apply A1 | assumption | reflexivity]); try assumption.
   destruct Tr as [F|F]; [exists [T d (o_w s)]; split; [repeat constructor; apply HT|exact F]|exists []; split; [constructor|exact F]].
 Qed.
+
+(* ---------- triples for the primitives ---------- *)
+Lemma inert_id : inert (fun w => w).
+Proof. intros w. repeat split. Qed.
+
+Lemma prim_quiet_run {A} k ctx T E (X : disp -> world -> M A) (s : ost) :
+  (forall d w, tok_ok g (T d w) = true) -> inert E ->
+  exists d s1, (d = DoStale -> plan_at (o_plan s) k (count_get (o_counts s) k) = FStale) /\
+               quiet_step s s1 /\ weq (o_w s) (o_w s1) /\ prim k ctx T E X s = X d (o_w s) s1.
+Proof.
+  intros HT HE. destruct (prim_spec k ctx T E X s) as (d & s1 & St & W & P & Tr & R).
+  exists d, s1. split; [exact St|]. destruct (HE (o_w s)) as (A1 & A2 & A3 & A4).
+  assert (Hq : quiet_step s s1).
+  { repeat split; try (rewrite W; destruct (disp_effect d); solve [apply A1 | assumption | reflexivity]); try assumption.
+    destruct Tr as [F|F]; [exists [T d (o_w s)]; split; [repeat constructor; apply HT|exact F]|exists []; split; [constructor|exact F]]. }
+  split; [exact Hq|]. split; [apply Hq|exact R].
+Qed.
+
+Lemma disp_ret_run {A} d (a : A) s : exists r, disp_ret d a s = (r, s) /\ (forall x, r = Ok x -> x = a).
+Proof. destruct d; cbn; eexists; split; try reflexivity; intros x Hx; inversion Hx; reflexivity. Qed.
+
+Lemma nostale_not (s : ost) k d :
+  nostale (o_plan s) -> (d = DoStale -> plan_at (o_plan s) k (count_get (o_counts s) k) = FStale) -> d <> DoStale.
+Proof. intros Hn H E. apply (Hn k (count_get (o_counts s) k)). auto. Qed.
+
+Lemma p_lookup_t (K : world -> Prop) (run : N) :
+  stable K ->
+  triple (fun s => Inv s /\ K (o_w s)) (p_lookup run)
+         (fun r s => Inv s /\ K (o_w s) /\ forall x, r = Ok x -> x = lookup_run (o_w s) run).
+Proof.
+  intros HK s Hs. unfold p_lookup.
+  match goal with |- context [prim ?k ?ctx ?T ?E ?X s] =>
+    destruct (prim_quiet_run k ctx T E X s) as (d & s1 & St & Hq & Hw & R); [reflexivity|apply inert_id|] end.
+  rewrite R. destruct (disp_ret_run d (match d with DoStale => stale_run (o_w s) run | _ => lookup_run (o_w s) run end) s1) as (r & Er & Hr).
+  rewrite Er. cbn. destruct (quiet_Inv K s s1 HK Hq Hs) as [HI HK1]. split; [exact HI|split; [exact HK1|]].
+  intros x Hx. rewrite (Hr x Hx).
+  assert (d <> DoStale) by (eapply nostale_not; [apply Hs|exact St]).
+  destruct Hw as (E1 & _). unfold lookup_run. rewrite E1. destruct d; try reflexivity. contradiction.
+Qed.
+
+Lemma p_latest_t (K : world -> Prop) (fid : N) :
+  stable K ->
+  triple (fun s => Inv s /\ K (o_w s)) (p_latest fid)
+         (fun r s => Inv s /\ K (o_w s) /\ forall x, r = Ok x -> x = latest_fid (o_w s) fid).
+Proof.
+  intros HK s Hs. unfold p_latest.
+  match goal with |- context [prim ?k ?ctx ?T ?E ?X s] =>
+    destruct (prim_quiet_run k ctx T E X s) as (d & s1 & St & Hq & Hw & R); [reflexivity|apply inert_id|] end.
+  rewrite R. destruct (disp_ret_run d (latest_fid (o_w s) fid) s1) as (r & Er & Hr).
+  rewrite Er. cbn. destruct (quiet_Inv K s s1 HK Hq Hs) as [HI HK1]. split; [exact HI|split; [exact HK1|]].
+  intros x Hx. rewrite (Hr x Hx). destruct Hw as (E1 & _). unfold latest_fid. now rewrite E1.
+Qed.
+
+(* every other non-record primitive: quiet *)
+Lemma quiet_prim_ret {A} k ctx T E (a : disp -> world -> A) :
+  (forall d w, tok_ok g (T d w) = true) -> inert E -> quiet (prim k ctx T E (fun d w => disp_ret d (a d w))).
+Proof. intros HT HE. apply quiet_prim; try assumption. intros d w. apply quiet_disp_ret. Qed.
+
+Lemma quiet_p_call k ctx args eff out : inert eff -> quiet (p_call k ctx args eff out).
+Proof. intros HE. unfold p_call. apply (quiet_prim_ret k ctx _ eff (fun _ _ => tt)); [reflexivity|exact HE]. Qed.
+Lemma quiet_p_list_outbox limit : quiet (p_list_outbox limit).
+Proof. unfold p_list_outbox. apply (quiet_prim_ret KLO true _ (fun w => w) (fun _ w => firstn (Z.to_nat limit) (w_outbox w))); [reflexivity|apply inert_id]. Qed.
+Lemma quiet_p_list_valid status : quiet (p_list_valid status).
+Proof. unfold p_list_valid. apply (quiet_prim_ret KTL true _ (fun w => w) (fun _ w => due_timers w status)); [reflexivity|apply inert_id]. Qed.
+Lemma quiet_p_ack u idx e : quiet (p_ack u idx e).
+Proof. unfold p_ack. apply (quiet_prim_ret KAK false _ _ (fun _ _ => tt)); [reflexivity|]. intros w. repeat split. Qed.
+Lemma quiet_p_tcreate fid run status ex : quiet (p_tcreate fid run status ex).
+Proof. unfold p_tcreate. apply (quiet_prim_ret KTC true _ _ (fun _ _ => tt)); [reflexivity|]. intros w. repeat split. Qed.
+Lemma quiet_p_tcomplete id : quiet (p_tcomplete id).
+Proof. unfold p_tcomplete. apply (quiet_prim_ret KTM true _ _ (fun _ _ => tt)); [reflexivity|]. intros w. repeat split. Qed.
+Lemma quiet_p_tcancel id : quiet (p_tcancel id).
+Proof. unfold p_tcancel. apply (quiet_prim_ret KTX true _ _ (fun _ _ => tt)); [reflexivity|]. intros w. repeat split. Qed.
+
+(* Store *)
+Lemma p_store_t (r : record) :
+  triple (fun s => Inv s /\ store_pre (o_w s) r) (p_store c r) (fun _ s => Inv s).
+Proof.
+  intros s [(HW & Hn & Htr) Hpre]. unfold p_store.
+  destruct (prim_spec KST true (fun d w => TStore (lookup_run w (r_run r)) (stamp c w r) (disp_res d)) (fun w => do_store c w r)
+                      (fun d _ => disp_ret d tt) s) as (d & s1 & _ & W & P & Tr & R).
+  rewrite R. destruct (disp_ret_run d tt s1) as (rr & Er & _). rewrite Er. cbn.
+  split; [|split].
+  - rewrite W. destruct (disp_effect d); [apply do_store_WI; assumption|assumption].
+  - rewrite P. exact Hn.
+  - destruct Tr as [F|F]; rewrite F; [|exact Htr]. apply toks_ok_cons; [|exact Htr]. cbn. apply Hpre.
+Qed.
+
+(* ---------- sequencing rule in the form used below ---------- *)
+Lemma t_seq {A B} (P : ost -> Prop) (m : M A) (f : A -> M B) (Q' : res A -> ost -> Prop) (Q : res B -> ost -> Prop) :
+  triple P m Q' -> (forall a, triple (fun s => Q' (Ok a) s) (f a) Q) -> (forall e s, Q' (Err e) s -> Q (Err e) s) ->
+  triple P (bind m f) Q.
+Proof.
+  intros Hm Hf He s Hs. unfold bind. specialize (Hm s Hs). destruct (m s) as [[a|e] s']; cbn [fst snd] in *.
+  - apply Hf, Hm.
+  - apply He, Hm.
+Qed.
+
+Lemma t_if {A} (b : bool) (P : ost -> Prop) (m1 m2 : M A) Q :
+  (b = true -> triple P m1 Q) -> (b = false -> triple P m2 Q) -> triple P (if b then m1 else m2) Q.
+Proof. destruct b; auto. Qed.
+
+(* ---------- a process's in-memory record agrees with the persisted record of its run ---------- *)
+Definition synced (w : world) (v : record) : Prop :=
+  exists p, lookup_run w (r_run v) = Some p /\
+    r_wf v = r_wf p /\ r_fid v = r_fid p /\ r_status v = r_status p /\ r_created v = r_created p /\
+    r_updated v = r_updated p /\ r_ver v = r_ver p /\ r_desc v = r_desc p /\ r_obj v = r_obj p /\
+    (r_state v = r_state p \/ (r_state p = RSInitiated /\ r_state v = RSRunning)).
+
+Lemma lookup_weq w w' run : weq w w' -> lookup_run w' run = lookup_run w run.
+Proof. intros (E & _). unfold lookup_run. now rewrite E. Qed.
+
+Lemma synced_stable v : stable (fun w => synced w v).
+Proof. intros w w' E (p & H & R). exists p. split; [rewrite (lookup_weq w w' _ E); exact H|exact R]. Qed.
+
+Lemma obj_eqb_refl o : obj_eqb o o = true.
+Proof. destruct o as [s t|]; cbn; [|reflexivity]. rewrite Z.eqb_refl. destruct (list_eq_dec Z.eq_dec t t); [reflexivity|contradiction]. Qed.
+
+Lemma store_ok_some_intro (p r : record) :
+  r_desc r = r_status r -> (r_state r = RSCompleted -> is_terminal g (r_status r) = true) ->
+  r_wf p = r_wf r -> r_fid p = r_fid r -> r_run p = r_run r -> r_created p = r_created r ->
+  r_ver r = r_ver p + 1 -> r_updated p <= r_updated r ->
+  (lc (r_state p) (r_state r) || (rs_eqb (r_state p) (r_state r) && (rs_eqb (r_state p) RSRunning || rs_eqb (r_state p) RSDataDeleted))) = true ->
+  (rs_finished (r_state p) = true -> rs_finished (r_state r) = true) ->
+  (r_status r = r_status p \/
+   (validate_transition g (r_status p) (r_status r) = true /\ rs_stopped (r_state p) = false /\ is_run_or_done (r_state r) = true /\
+    rs_eqb (r_state r) RSCompleted = is_terminal g (r_status r))) ->
+  (r_obj r = r_obj p \/ r_state r = RSDataDeleted \/ (is_run_or_done (r_state r) = true /\ rs_stopped (r_state p) = false)) ->
+  store_ok g (Some p) r = true.
+Proof.
+  intros H1 H2 H3 H4 H5 H6 H7 H8 H9 H10 H11 H12. unfold store_ok.
+  rewrite H1, Z.eqb_refl. cbn [andb].
+  assert (E2 : implb (rs_eqb (r_state r) RSCompleted) (is_terminal g (r_status r)) = true).
+  { destruct (rs_eqb (r_state r) RSCompleted) eqn:E; [|reflexivity]. apply rs_eqb_eq in E. cbn. auto. }
+  rewrite E2. cbn [andb].
+  unfold same_id. rewrite H3, H4, H5, H6, !N.eqb_refl, Z.eqb_refl, H7, Z.eqb_refl. cbn [andb].
+  assert (E8 : (r_updated p <=? r_updated r) = true) by (apply Z.leb_le; exact H8). rewrite E8, H9. cbn [andb].
+  assert (E10 : implb (rs_finished (r_state p)) (rs_finished (r_state r)) = true).
+  { destruct (rs_finished (r_state p)); [cbn; auto|reflexivity]. }
+  rewrite E10. cbn [andb].
+  assert (E11 : (if r_status r =? r_status p then true
+                 else validate_transition g (r_status p) (r_status r) && negb (rs_stopped (r_state p)) && is_run_or_done (r_state r) &&
+                      Bool.eqb (rs_eqb (r_state r) RSCompleted) (is_terminal g (r_status r))) = true).
+  { destruct (r_status r =? r_status p) eqn:E; [reflexivity|]. destruct H11 as [H|(A & B & C & D)]; [apply Z.eqb_neq in E; contradiction|].
+    rewrite A, B, C, D. cbn. apply Bool.eqb_reflx. }
+  rewrite E11. cbn [andb].
+  destruct H12 as [H|[H|[A B]]].
+  - rewrite H, obj_eqb_refl. reflexivity.
+  - rewrite H. cbn. now rewrite Bool.orb_true_r.
+  - rewrite A, B. cbn. now rewrite Bool.orb_true_r.
+Qed.
+
+Lemma table_lc_promoted (ps vs t : runstate) :
+  (vs = ps \/ (ps = RSInitiated /\ vs = RSRunning)) -> rs_table vs t = true -> lc ps t = true.
+Proof. intros [->|[-> ->]] H; [apply table_sub_lc, H|]. unfold lc. rewrite H. now rewrite Bool.orb_true_r. Qed.
+
+Lemma stamp_fields (w : world) (r : record) :
+  r_wf (stamp c w r) = r_wf r /\ r_fid (stamp c w r) = r_fid r /\ r_status (stamp c w r) = r_status r /\
+  r_obj (stamp c w r) = r_obj r /\ r_created (stamp c w r) = r_created r /\ r_ver (stamp c w r) = r_ver r /\
+  r_desc (stamp c w r) = r_desc r /\ (r_updated (stamp c w r) = r_updated r \/ r_updated (stamp c w r) = w_now w).
+Proof. unfold stamp. destruct (ec_stamp c); cbn; repeat split; auto. Qed.
+
+(* the controller's write for a record in sync with its persisted run is an admissible Store *)
+Lemma ctl_store_pre (w : world) (ctl : record) (target : runstate) (reason : N) (r' : record) :
+  WI w -> synced w ctl -> target <> RSCompleted -> target <> RSUnknown ->
+  ctl_update ctl target reason = Some r' -> store_pre w r'.
+Proof.
+  intros HW (p & Hp & S1 & S2 & S3 & S4 & S5 & S6 & S7 & S8 & S9) Ht1 Ht2 Hu.
+  unfold ctl_update in Hu. destruct (rs_table (r_state ctl) target) eqn:Etab; [|discriminate]. inversion Hu; subst r'. clear Hu.
+  destruct (WI_lookup c w _ _ HW Hp) as (Hin & Hrun & (R1 & R2 & R3 & R4)).
+  assert (Hlc : lc (r_state p) target = true) by (eapply table_lc_promoted; eauto).
+  set (r' := bump (set_reason (set_state ctl target) reason)).
+  destruct (stamp_fields w r') as (F1 & F2 & F3 & F4 & F5 & F6 & F7 & F8).
+  unfold store_pre. replace (r_run r') with (r_run ctl) by reflexivity. rewrite Hp.
+  split; [|split; [|split]].
+  - apply store_ok_some_intro; rewrite ?stamp_state, ?stamp_run, ?F1, ?F2, ?F3, ?F4, ?F5, ?F6, ?F7; cbn.
+    + congruence.
+    + intros E. contradiction.
+    + congruence.
+    + congruence.
+    + congruence.
+    + congruence.
+    + lia.
+    + destruct F8 as [-> | ->]; cbn; lia.
+    + rewrite Hlc. reflexivity.
+    + intros Hf. eapply lc_finished_closed; eauto.
+    + left. congruence.
+    + left. congruence.
+  - destruct F8 as [-> | ->]; cbn; lia.
+  - exact Ht2.
+  - intros; discriminate.
+Qed.
+
+(* ---------- the controller ---------- *)
+Definition ctl_dead (r : record) : Prop := r_state r = RSPaused \/ r_state r = RSCancelled.
+
+Lemma ctl_do_t (K : world -> Prop) (ctl : record) (target : runstate) (reason : N) :
+  stable K ->
+  triple (fun s => Inv s /\ K (o_w s) /\ forall r', ctl_update ctl target reason = Some r' -> store_pre (o_w s) r')
+         (ctl_do c ctl target reason)
+         (fun r s => Inv s /\ forall x, r = Ok x ->
+            (ctl_update ctl target reason = None /\ snd x = ctl /\ (exists e, fst x = Err e) /\ K (o_w s)) \/
+            (exists r', ctl_update ctl target reason = Some r' /\ snd x = r')).
+Proof.
+  intros HK. unfold ctl_do. destruct (ctl_update ctl target reason) as [r'|] eqn:E.
+  - eapply (t_seq _ _ _ (fun _ s => Inv s)).
+    + apply t_catch. eapply t_pre; [|apply (p_store_t r')]. intros s (HI & _ & H). split; [exact HI|apply H; reflexivity].
+    + intros a. apply t_ret. intros s HI. split; [exact HI|]. intros x Hx. inversion Hx; subst. right. eexists; split; reflexivity.
+    + intros e s H. split; [exact H|]. intros; discriminate.
+  - apply t_ret. intros s (HI & HKs & _). split; [exact HI|]. intros x Hx. inversion Hx; subst. left. cbn. repeat split; eauto.
+Qed.
+
+Lemma ctl_update_state ctl target reason r' : ctl_update ctl target reason = Some r' -> r_state r' = target.
+Proof. unfold ctl_update. destruct (rs_table _ _); [|discriminate]. intros H; inversion H; reflexivity. Qed.
+
+Lemma ctl_dead_no_pause ctl reason : ctl_dead ctl -> ctl_update ctl RSPaused reason = None.
+Proof. intros [H|H]; unfold ctl_update; rewrite H; reflexivity. Qed.
+
+(* ---------- a record handed to a user function: in sync with a persisted run that is not stopped ---------- *)
+Definition live (w : world) (v : record) : Prop :=
+  synced w v /\ exists p, lookup_run w (r_run v) = Some p /\ rs_stopped (r_state p) = false.
+
+Lemma live_stable v : stable (fun w => live w v).
+Proof.
+  intros w w' E [H1 (p & H2 & H3)]. split; [eapply synced_stable; eauto|].
+  exists p. split; [rewrite (lookup_weq w w' _ E); exact H2|exact H3].
+Qed.
+
+Lemma live_user_ok (w : world) (u : ufun) (v : record) : live w v -> user_ok u v (lookup_run w (r_run v)) = true.
+Proof.
+  intros [(p & Hp & S1 & S2 & S3 & S4 & S5 & S6 & S7 & S8 & S9) (p' & Hp' & Hs)].
+  rewrite Hp in Hp'. inversion Hp'; subst p'. unfold user_ok. destruct (is_step_fn u); [|reflexivity].
+  rewrite Hp, Hs, S8, obj_eqb_refl, S6, S3, !Z.eqb_refl. cbn.
+  apply N.eqb_eq. unfold lookup_run in Hp. apply find_first_some in Hp as [_ Hq]. apply N.eqb_eq in Hq. now rewrite Hq.
+Qed.
+
+Definition invoke_post (K : world -> Prop) (view : record) (r : res (obj * (Z + err) * record)) (s : ost) : Prop :=
+  Inv s /\ forall o oc ctl, r = Ok (o, oc, ctl) ->
+    match oc with
+    | inl z => z = -1 \/ (K (o_w s) /\ live (o_w s) view /\ ctl = view)
+    | inr e => (K (o_w s) /\ live (o_w s) view /\ ctl = view) \/ ctl_dead ctl
+    end.
+
+Lemma quiet_m (K : world -> Prop) {A} (m : M A) (P : ost -> Prop) (Q : res A -> ost -> Prop) :
+  quiet m -> stable K -> (forall s, P s -> Inv s /\ K (o_w s)) -> (forall r s, Inv s /\ K (o_w s) -> Q r s) -> triple P m Q.
+Proof. intros Hq HK HP HQ s Hs. apply HQ. eapply quiet_Inv; eauto. Qed.
+
+Lemma invoke_t (K : world -> Prop) (u : ufun) (b : beh) (status : Z) (view : record) :
+  stable K ->
+  triple (fun s => Inv s /\ K (o_w s) /\ live (o_w s) view) (invoke c u b status view) (invoke_post K view).
+Proof.
+  intros HK. unfold invoke.
+  set (K2 := fun w => K w /\ live w view).
+  assert (HK2 : stable K2) by (apply stable_and; [exact HK|apply live_stable]).
+  eapply (t_seq _ _ _ (fun _ s => Inv s /\ K2 (o_w s))).
+  { eapply t_pre; [|apply (t_quiet _ K2 (quiet_att_bump _ _) HK2)]. intros s (HI & H1 & H2). split; [exact HI|split; assumption]. }
+  2:{ intros e s [HI _]. split; [exact HI|]. intros; discriminate. }
+  intros n. eapply (t_seq _ _ _ (fun r s => Inv s /\ K2 (o_w s) /\ r = Ok (o_w s))).
+  { apply t_get_w. intros s [HI HKs]. auto. }
+  2:{ intros e s (_ & _ & H). discriminate. }
+  intros w. apply t_pre with (P' := fun s => w = o_w s /\ Inv s /\ K2 (o_w s)).
+  { intros s (HI & HKs & Hw). inversion Hw; subst. auto. }
+  destruct (eval_beh b n (obj_seed (r_obj view))) as [mark act].
+  eapply (t_seq _ _ _ (fun _ s => Inv s /\ K2 (o_w s))).
+  - (* the TUser token *)
+    apply t_emit.
+    intros s s' (Hw & HI & HKs) E1 E2 E3. rewrite E1. split; [|exact HKs].
+    destruct HI as (HW & Hn & Htr). split; [rewrite E1; exact HW|split; [rewrite E2; exact Hn|]].
+    destruct E3 as [E|E]; rewrite E; [|exact Htr]. apply toks_ok_cons; [|exact Htr].
+    cbn. subst w. apply live_user_ok. apply HKs.
+  - intros _. destruct act as [z|e| |].
+    + apply t_ret. intros s (HI & HKs & HL). split; [exact HI|]. intros o oc ctl Hx. inversion Hx; subst. right. auto.
+    + apply t_ret. intros s (HI & HKs & HL). split; [exact HI|]. intros o oc ctl Hx. inversion Hx; subst. left. auto.
+    + eapply t_seq.
+      * eapply t_pre; [|apply (ctl_do_t K2 view RSPaused 1%N HK2)].
+        intros s (HI & HKs). split; [exact HI|split; [exact HKs|]]. intros r' Hr'.
+        eapply ctl_store_pre; try exact Hr'; try discriminate; [apply HI|apply HKs].
+      * intros x. apply t_ret. intros s (HI & Hx). split; [exact HI|]. intros o oc ctl Hr. inversion Hr; subst.
+        destruct (Hx x eq_refl) as [(_ & Hs & (e & He) & HKs)|(r' & Hu & Hs)].
+        -- rewrite He, Hs. left. destruct HKs. auto.
+        -- rewrite Hs. destruct (fst x); [left; reflexivity|right]. left. eapply ctl_update_state, Hu.
+      * intros e s [HI _]. split; [exact HI|]. intros; discriminate.
+    + eapply t_seq.
+      * eapply t_pre; [|apply (ctl_do_t K2 view RSCancelled 3%N HK2)].
+        intros s (HI & HKs). split; [exact HI|split; [exact HKs|]]. intros r' Hr'.
+        eapply ctl_store_pre; try exact Hr'; try discriminate; [apply HI|apply HKs].
+      * intros x. apply t_ret. intros s (HI & Hx). split; [exact HI|]. intros o oc ctl Hr. inversion Hr; subst.
+        destruct (Hx x eq_refl) as [(_ & Hs & (e & He) & HKs)|(r' & Hu & Hs)].
+        -- rewrite He, Hs. left. destruct HKs. auto.
+        -- rewrite Hs. destruct (fst x); [left; reflexivity|right]. right. eapply ctl_update_state, Hu.
+      * intros e s [HI _]. split; [exact HI|]. intros; discriminate.
+  - intros e s [HI _]. split; [exact HI|]. intros; discriminate.
+Qed.
+
+(* ---------- pause.go maybePause ---------- *)
+Lemma maybe_pause_t (inst n : Z) (e : err) (u : eunit) (ctl : record) :
+  triple (fun s => Inv s /\ (synced (o_w s) ctl \/ ctl_dead ctl)) (maybe_pause c inst n e u ctl) (fun _ s => Inv s).
+Proof.
+  unfold maybe_pause. apply t_if; intros _; [apply t_ret; intros s [HI _]; exact HI|].
+  set (K := fun w => synced w ctl \/ ctl_dead ctl).
+  assert (HK : stable K).
+  { intros w w' E [H|H]; [left; eapply synced_stable; eauto|right; exact H]. }
+  eapply (t_seq _ _ _ (fun _ s => Inv s /\ K (o_w s))).
+  { apply (t_quiet _ K (quiet_ctr_add _ _) HK). }
+  2:{ intros e' s [HI _]. exact HI. }
+  intros cnt. apply t_if; intros _; [apply t_ret; intros s [HI _]; exact HI|].
+  eapply t_seq.
+  - eapply t_pre; [|apply (ctl_do_t K ctl RSPaused 2%N HK)].
+    intros s (HI & HKs). split; [exact HI|split; [exact HKs|]]. intros r' Hr'.
+    destruct HKs as [Hs|Hd]; [|rewrite (ctl_dead_no_pause ctl 2%N Hd) in Hr'; discriminate].
+    eapply ctl_store_pre; try exact Hr'; try discriminate; [apply HI|exact Hs].
+  - intros x. destruct (fst x); [|apply t_fail; intros s [HI _]; exact HI].
+    eapply (t_seq _ _ _ (fun _ s => Inv s)).
+    + apply (quiet_m (fun _ => True)); [apply quiet_ctr_clear|apply stable_const| |].
+      * intros s [HI _]. auto.
+      * intros r s [HI _]. exact HI.
+    + intros _. apply t_ret. intros s H. apply H.
+    + intros e' s H. apply H.
+  - intros e' s [HI _]. exact HI.
+Qed.
+
+(* ---------- update.go newUpdater ---------- *)
+Definition upd_ready (w : world) (run : record) : Prop :=
+  exists p, lookup_run w (r_run run) = Some p /\ r_wf run = r_wf p /\ r_fid run = r_fid p /\ r_created run = r_created p /\
+            r_ver run = r_ver p /\ rs_stopped (r_state p) = false.
+
+Lemma upd_ready_stable run : stable (fun w => upd_ready w run).
+Proof. intros w w' E (p & H & R). exists p. split; [rewrite (lookup_weq w w' _ E); exact H|exact R]. Qed.
+
+Lemma terminal_no_out (n : Z) : is_terminal g n = true -> validate_transition g n = fun _ => false.
+Proof.
+  intros H. unfold validate_transition. unfold g, ec_graph in *. rewrite (terminal_no_transitions _ _ H). reflexivity.
+Qed.
+
+Lemma updater_store_pre (w : world) (cur next : Z) (run p : record) :
+  WI w -> lookup_run w (r_run run) = Some p -> r_wf run = r_wf p -> r_fid run = r_fid p -> r_created run = r_created p ->
+  r_ver run = r_ver p -> rs_stopped (r_state p) = false -> r_status p = cur -> validate_transition g cur next = true ->
+  store_pre w (bump (mkRecord (r_wf run) (r_fid run) (r_run run) (if is_terminal g next then RSCompleted else RSRunning) next
+                              (r_obj run) (r_created run) (w_now w) (r_ver run) (r_reason run) next)).
+Proof.
+  intros HW Hp S1 S2 S3 S4 Hns Hcur Hval.
+  destruct (WI_lookup c w _ _ HW Hp) as (Hin & Hrun & (R1 & R2 & R3 & R4)).
+  set (st := if is_terminal g next then RSCompleted else RSRunning).
+  set (r' := bump (mkRecord (r_wf run) (r_fid run) (r_run run) st next (r_obj run) (r_created run) (w_now w) (r_ver run) (r_reason run) next)).
+  destruct (stamp_fields w r') as (F1 & F2 & F3 & F4 & F5 & F6 & F7 & F8).
+  (* the persisted run is Initiated or Running *)
+  assert (Hst : r_state p = RSInitiated \/ r_state p = RSRunning).
+  { destruct (r_state p) eqn:E; try discriminate; auto; try contradiction.
+    exfalso. specialize (R2 eq_refl). rewrite Hcur in R2. rewrite (terminal_no_out cur R2) in Hval. discriminate. }
+  assert (Hrd : is_run_or_done st = true) by (unfold st; destruct (is_terminal g next); reflexivity).
+  unfold store_pre. replace (r_run r') with (r_run run) by reflexivity. rewrite Hp.
+  split; [|split; [|split]].
+  - apply store_ok_some_intro; rewrite ?stamp_state, ?stamp_run, ?F1, ?F2, ?F3, ?F4, ?F5, ?F6, ?F7; cbn.
+    + reflexivity.
+    + unfold st. destruct (is_terminal g next) eqn:E; [auto|discriminate].
+    + congruence.
+    + congruence.
+    + congruence.
+    + congruence.
+    + lia.
+    + destruct F8 as [-> | ->]; cbn; lia.
+    + unfold st. destruct Hst as [-> | ->]; destruct (is_terminal g next); reflexivity.
+    + destruct Hst as [-> | ->]; discriminate.
+    + destruct (Z.eq_dec next (r_status p)) as [E|E]; [left; exact E|right].
+      rewrite Hcur. repeat split; try assumption. unfold st. destruct (is_terminal g next); reflexivity.
+    + right. right. split; assumption.
+  - destruct F8 as [-> | ->]; cbn; lia.
+  - unfold st. cbn. destruct (is_terminal g next); discriminate.
+  - intros; discriminate.
+Qed.
+
+Lemma updater_t (cur next : Z) (run : record) :
+  triple (fun s => Inv s /\ upd_ready (o_w s) run) (updater c cur next run) (fun _ s => Inv s).
+Proof.
+  unfold updater. set (K := fun w => upd_ready w run).
+  assert (HK : stable K) by apply upd_ready_stable.
+  eapply (t_seq _ _ _ (fun r s => Inv s /\ K (o_w s) /\ r = Ok (o_w s))).
+  { apply t_get_w. intros s [HI HKs]. auto. }
+  2:{ intros e s (_ & _ & H). discriminate. }
+  intros w. apply t_pre with (P' := fun s => w_now w = w_now (o_w s) /\ Inv s /\ K (o_w s)).
+  { intros s (HI & HKs & Hw). inversion Hw; subst. auto. }
+  eapply (t_seq _ _ _ (fun r s => Inv s /\ (K (o_w s) /\ w_now w = w_now (o_w s)) /\ forall x, r = Ok x -> x = lookup_run (o_w s) (r_run run))).
+  { eapply t_pre; [|apply (p_lookup_t (fun w' => K w' /\ w_now w = w_now w') (r_run run))].
+    - intros s (Hn & HI & HKs). auto.
+    - apply stable_and; [exact HK|]. intros w1 w2 (_ & _ & E) H. congruence. }
+  2:{ intros e s [HI _]. exact HI. }
+  intros latest. destruct latest as [l|]; [|apply t_fail; intros s [HI _]; exact HI].
+  apply t_if; intros Est; [apply t_ret; intros s [HI _]; exact HI|].
+  apply t_if; intros Eval; [apply t_fail; intros s [HI _]; exact HI|].
+  eapply t_pre; [|apply p_store_t].
+  intros s (HI & (HKs & Hnow) & Hl). split; [exact HI|].
+  destruct HKs as (p & Hp & S1 & S2 & S3 & S4 & Hns).
+  specialize (Hl (Some l) eq_refl). rewrite Hp in Hl. inversion Hl; subst l.
+  rewrite Hnow. apply (updater_store_pre (o_w s) cur next run p); try assumption; [apply HI| |].
+  - apply Bool.negb_false_iff in Est. now apply Z.eqb_eq in Est.
+  - now apply Bool.negb_false_iff in Eval.
+Qed.
+
+(* ---------- step.go stepConsumer ---------- *)
+Definition fn_ok (fn : record -> M (obj * (Z + err) * record)) : Prop :=
+  forall (K : world -> Prop) view, stable K ->
+    triple (fun s => Inv s /\ K (o_w s) /\ live (o_w s) view) (fn view) (invoke_post K view).
+
+Lemma live_promote (w : world) (run : N) (r : record) :
+  lookup_run w run = Some r -> rs_stopped (r_state r) = false -> live w (promote r).
+Proof.
+  intros Hl Hs.
+  assert (Hrun : r_run r = run). { unfold lookup_run in Hl. apply find_first_some in Hl as [_ H]. now apply N.eqb_eq in H. }
+  assert (Hpr : r_run (promote r) = r_run r) by (unfold promote; destruct (r_state r); reflexivity).
+  split.
+  - exists r. rewrite Hpr, Hrun. split; [exact Hl|].
+    unfold promote. destruct (r_state r) eqn:E; cbn; repeat split; auto.
+  - exists r. rewrite Hpr, Hrun. auto.
+Qed.
+
+Lemma live_upd_ready (w : world) (view : record) (o : obj) : live w view -> upd_ready w (set_obj view o).
+Proof.
+  intros [(p & Hp & S1 & S2 & S3 & S4 & S5 & S6 & S7 & S8 & S9) (p' & Hp' & Hs)].
+  rewrite Hp in Hp'. inversion Hp'; subst p'. exists p. cbn. repeat split; assumption.
+Qed.
+
+Lemma skip_not_m1 z : skip_status z = false -> z <> -1.
+Proof. unfold skip_status. intros H E. subst z. discriminate. Qed.
+
+Lemma step_handler_t (inst : Z) (u : eunit) (st : Z) fn (n : Z) (e : event) :
+  fn_ok fn -> triple Inv (step_handler c inst u st fn n e) (fun _ s => Inv s).
+Proof.
+  intros Hfn. unfold step_handler.
+  eapply (t_seq _ _ _ (fun r s => Inv s /\ forall x, r = Ok x -> x = lookup_run (o_w s) (e_run e))).
+  { eapply t_conseq; [|apply (p_lookup_t (fun _ => True) (e_run e) (stable_const True))|].
+    - intros s HI. split; [exact HI|exact I].
+    - intros r s (HI & _ & H). split; [exact HI|exact H]. }
+  2:{ intros e' s [HI _]. exact HI. }
+  intros r. destruct r as [r|]; [|apply t_ret; intros s [HI _]; exact HI].
+  apply t_if; intros _; [apply t_ret; intros s [HI _]; exact HI|].
+  apply t_if; intros _; [apply t_fail; intros s [HI _]; exact HI|].
+  apply t_if; intros Hns; [apply t_ret; intros s [HI _]; exact HI|].
+  unfold build_run. destruct (r_obj r) eqn:Eo; [|apply t_fail; intros s [HI _]; exact HI].
+  eapply (t_seq _ _ _ (fun r0 s => r0 = Ok (promote r) /\ Inv s /\ live (o_w s) (promote r))).
+  { apply t_ret. intros s [HI Hl]. split; [reflexivity|split; [exact HI|]]. eapply live_promote; [symmetry; apply Hl; reflexivity|exact Hns]. }
+  2:{ intros e' s (H & _). discriminate. }
+  intros view. apply t_pre with (P' := fun s => view = promote r /\ Inv s /\ live (o_w s) view).
+  { intros s (H & HI & Hl). inversion H; subst. auto. }
+  eapply t_seq.
+  - eapply t_pre; [|apply (Hfn (fun _ => True) view (stable_const True))]. intros s (_ & HI & Hl). auto.
+  - intros [[obj' oc] ctl]. destruct oc as [z|oe].
+    + apply t_if; intros Hskip; [apply t_ret; intros s [HI _]; exact HI|].
+      eapply t_pre; [|apply updater_t]. intros s [HI H]. split; [exact HI|].
+      destruct (H obj' (inl z) ctl eq_refl) as [Hz|(_ & Hl & _)]; [exfalso; eapply skip_not_m1; eauto|].
+      apply live_upd_ready, Hl.
+    + eapply (t_seq _ _ _ (fun _ s => Inv s)).
+      * eapply t_pre; [|apply maybe_pause_t]. intros s [HI H]. split; [exact HI|].
+        destruct (H obj' (inr oe) ctl eq_refl) as [(_ & Hl & ->)|Hd]; [left; apply Hl|right; exact Hd].
+      * intros paused. destruct paused; [apply t_ret|apply t_fail]; intros s HI; exact HI.
+      * intros e' s HI. exact HI.
+  - intros e' s [HI _]. exact HI.
+Qed.
+
+Lemma invoke_fn_ok u b st : fn_ok (invoke c u b st).
+Proof. intros K view HK. apply invoke_t, HK. Qed.
+
+Lemma inserter_fn_ok (st : Z) (tos : list tocfg) : forall j, fn_ok (inserter_fn st tos j).
+Proof.
+  induction tos as [|t tl IH]; intros j K view HK; cbn [inserter_fn].
+  - apply t_ret. intros s (HI & HKs & Hl). split; [exact HI|]. intros o oc ctl Hx. inversion Hx; subst. right. auto.
+  - apply t_if; intros _; [apply IH, HK|].
+    set (K2 := fun w => K w /\ live w view).
+    assert (HK2 : stable K2) by (apply stable_and; [exact HK|apply live_stable]).
+    eapply (t_seq _ _ _ (fun r s => Inv s /\ K2 (o_w s) /\ r = Ok (o_w s))).
+    { apply t_get_w. intros s (HI & H1 & H2). split; [exact HI|split; [split; assumption|reflexivity]]. }
+    2:{ intros e s (_ & _ & H). discriminate. }
+    intros w.
+    eapply (t_seq _ _ _ (fun _ s => Inv s /\ K2 (o_w s))).
+    { apply (quiet_m K2); [apply quiet_emit; reflexivity|exact HK2| |].
+      - intros s (HI & H & _). auto.
+      - intros r s H. exact H. }
+    2:{ intros e s [HI _]. split; [exact HI|]. intros; discriminate. }
+    intros _. destruct (to_dur t <? 0).
+    + eapply t_pre; [|apply (IH (S j) K view HK)]. intros s (HI & H1 & H2). auto.
+    + eapply (t_seq _ _ _ (fun _ s => Inv s /\ K2 (o_w s))).
+      { apply t_catch. apply (quiet_m K2); [apply quiet_p_tcreate|exact HK2| |]; auto. }
+      2:{ intros e s [HI _]. split; [exact HI|]. intros; discriminate. }
+      intros r. destruct r as [_|e].
+      * eapply t_pre; [|apply (IH (S j) K view HK)]. intros s (HI & H1 & H2). auto.
+      * apply t_ret. intros s (HI & H1 & H2). split; [exact HI|]. intros o oc ctl Hx. inversion Hx; subst. left. auto.
+Qed.
+
+(* ---------- timeout.go pollTimeouts ---------- *)
+Lemma quiet_p_lookup run : quiet (p_lookup run).
+Proof. unfold p_lookup. apply (quiet_prim_ret KLK true _ (fun w => w) (fun d w => match d with DoStale => stale_run w run | _ => lookup_run w run end)); [reflexivity|apply inert_id]. Qed.
+
+Lemma t_inv_quiet {A} (m : M A) : quiet m -> triple Inv m (fun _ s => Inv s).
+Proof.
+  intros Hq. apply (quiet_m (fun _ => True)); [exact Hq|apply stable_const| |].
+  - intros s HI. split; [exact HI|exact I].
+  - intros r s [HI _]. exact HI.
+Qed.
+
+Lemma process_timeouts_t (inst : Z) (u : eunit) (st n : Z) (t : trec) (tos : list tocfg) :
+  forall j, triple Inv (process_timeouts c inst u st n tos j t) (fun _ s => Inv s).
+Proof.
+  induction tos as [|tc tl IH]; intros j; cbn [process_timeouts].
+  - apply t_ret. auto.
+  - apply t_if; intros _; [apply IH|].
+    eapply (t_seq _ _ _ (fun r s => Inv s /\ forall x, r = Ok x -> x = lookup_run (o_w s) (t_run t))).
+    { eapply t_conseq; [|apply (p_lookup_t (fun _ => True) (t_run t) (stable_const True))|].
+      - intros s HI. split; [exact HI|exact I].
+      - intros r s (HI & _ & H). split; [exact HI|exact H]. }
+    2:{ intros e' s [HI _]. exact HI. }
+    intros r. destruct r as [r|]; [|apply t_fail; intros s [HI _]; exact HI].
+    apply t_if; intros _.
+    { eapply t_pre; [|apply (t_inv_quiet _ (quiet_p_tcancel _))]. intros s [HI _]. exact HI. }
+    apply t_if; intros Hns; [apply t_ret; intros s [HI _]; exact HI|].
+    unfold build_run. destruct (r_obj r) eqn:Eo; [|apply t_fail; intros s [HI _]; exact HI].
+    eapply (t_seq _ _ _ (fun r0 s => r0 = Ok (promote r) /\ Inv s /\ live (o_w s) (promote r))).
+    { apply t_ret. intros s [HI Hl]. split; [reflexivity|split; [exact HI|]]. eapply live_promote; [symmetry; apply Hl; reflexivity|exact Hns]. }
+    2:{ intros e' s (H & _). discriminate. }
+    intros view. apply t_pre with (P' := fun s => view = promote r /\ Inv s /\ live (o_w s) view).
+    { intros s (H & HI & Hl). inversion H; subst. auto. }
+    eapply t_seq.
+    + eapply t_pre; [|apply (invoke_t (fun _ => True) (UFTimeout st j) (to_beh tc) st view (stable_const True))].
+      intros s (_ & HI & Hl). auto.
+    + intros [[obj' oc] ctl].
+      eapply (t_seq _ _ _ (fun _ s => Inv s)); [|intros _; apply IH|intros e' s HI; exact HI].
+      destruct oc as [z|oe].
+      * apply t_if; intros Hskip; [apply t_ret; intros s [HI _]; exact HI|].
+        eapply (t_seq _ _ _ (fun _ s => Inv s)); [|intros _; apply (t_inv_quiet _ (quiet_p_tcomplete _))|intros e' s HI; exact HI].
+        eapply t_pre; [|apply updater_t]. intros s [HI H]. split; [exact HI|].
+        destruct (H obj' (inl z) ctl eq_refl) as [Hz|(_ & Hl & _)]; [exfalso; eapply skip_not_m1; eauto|].
+        apply live_upd_ready, Hl.
+      * eapply (t_seq _ _ _ (fun _ s => Inv s)); [|intros _; apply t_ret; auto|intros e' s HI; exact HI].
+        eapply t_pre; [|apply maybe_pause_t]. intros s [HI H]. split; [exact HI|].
+        destruct (H obj' (inr oe) ctl eq_refl) as [(_ & Hl & ->)|Hd]; [left; apply Hl|right; exact Hd].
+    + intros e' s [HI _]. exact HI.
+Qed.
+
+Lemma poll_timers_t (inst : Z) (u : eunit) (st n : Z) (l : list trec) :
+  triple Inv (poll_timers c inst u st n l) (fun _ s => Inv s).
+Proof.
+  induction l as [|t tl IH]; cbn [poll_timers]; [apply t_ret; auto|].
+  eapply (t_seq _ _ _ (fun _ s => Inv s)); [apply process_timeouts_t|intros _; exact IH|intros e s HI; exact HI].
+Qed.
+
+(* ---------- hook.go, pause.go (retry), delete.go ---------- *)
+Lemma quiet_hook_handler st k e : quiet (hook_handler st k e).
+Proof.
+  unfold hook_handler. apply quiet_bind; [apply quiet_p_lookup|]. intros [r|]; [|apply quiet_fail].
+  destruct (r_obj r); [|apply quiet_ret].
+  apply quiet_bind; [apply quiet_att_bump|]. intros n.
+  apply quiet_bind; [apply quiet_get_w|]. intros w.
+  apply quiet_bind; [apply quiet_emit; reflexivity|]. intros _.
+  destruct (Nat.ltb n k); [apply quiet_fail|apply quiet_ret].
+Qed.
+
+Lemma synced_self (w : world) (run : N) (r : record) : lookup_run w run = Some r -> synced w r.
+Proof.
+  intros Hl. assert (Hrun : r_run r = run). { unfold lookup_run in Hl. apply find_first_some in Hl as [_ H]. now apply N.eqb_eq in H. }
+  exists r. rewrite Hrun. repeat split; auto.
+Qed.
+
+Lemma retry_handler_t (e : event) : triple Inv (retry_handler c e) (fun _ s => Inv s).
+Proof.
+  unfold retry_handler.
+  eapply (t_seq _ _ _ (fun r s => Inv s /\ forall x, r = Ok x -> x = lookup_run (o_w s) (e_run e))).
+  { eapply t_conseq; [|apply (p_lookup_t (fun _ => True) (e_run e) (stable_const True))|].
+    - intros s HI. split; [exact HI|exact I].
+    - intros r s (HI & _ & H). split; [exact HI|exact H]. }
+  2:{ intros e' s [HI _]. exact HI. }
+  intros r. destruct r as [r|]; [|apply t_fail; intros s [HI _]; exact HI].
+  apply t_if; intros _; [apply t_ret; intros s [HI _]; exact HI|].
+  set (K := fun w => synced w r).
+  eapply (t_seq _ _ _ (fun _ s => Inv s /\ K (o_w s))).
+  { apply t_get_w. intros s [HI H]. split; [exact HI|]. eapply synced_self. symmetry. apply H. reflexivity. }
+  2:{ intros e' s [HI _]. exact HI. }
+  intros w. apply t_if; intros _; [apply t_ret; intros s [HI _]; exact HI|].
+  eapply t_seq.
+  - eapply t_pre; [|apply (ctl_do_t K r RSRunning 0%N (synced_stable r))].
+    intros s (HI & HKs). split; [exact HI|split; [exact HKs|]]. intros r' Hr'.
+    eapply ctl_store_pre; try exact Hr'; try discriminate; [apply HI|exact HKs].
+  - intros x. destruct (fst x); [apply t_ret|apply t_fail]; intros s [HI _]; exact HI.
+  - intros e' s [HI _]. exact HI.
+Qed.
+
+Lemma delete_store_pre (w : world) (run : N) (r : record) (repl : obj) :
+  WI w -> lookup_run w run = Some r -> (r_state r = RSReqDataDeleted \/ r_state r = RSDataDeleted) ->
+  store_pre w (bump (set_state (set_obj r repl) RSDataDeleted)).
+Proof.
+  intros HW Hl Hst.
+  assert (Hrun : r_run r = run). { unfold lookup_run in Hl. apply find_first_some in Hl as [_ H]. now apply N.eqb_eq in H. }
+  destruct (WI_lookup c w _ _ HW Hl) as (Hin & _ & (R1 & R2 & R3 & R4)).
+  set (r' := bump (set_state (set_obj r repl) RSDataDeleted)).
+  destruct (stamp_fields w r') as (F1 & F2 & F3 & F4 & F5 & F6 & F7 & F8).
+  unfold store_pre. replace (r_run r') with (r_run r) by reflexivity. rewrite Hrun, Hl.
+  split; [|split; [|split]].
+  - apply store_ok_some_intro; rewrite ?stamp_state, ?stamp_run, ?F1, ?F2, ?F3, ?F4, ?F5, ?F6, ?F7; cbn; try reflexivity.
+    + exact R1.
+    + discriminate.
+    + destruct F8 as [-> | ->]; cbn; lia.
+    + destruct Hst as [-> | ->]; reflexivity.
+    + left. reflexivity.
+    + right. left. reflexivity.
+  - destruct F8 as [-> | ->]; cbn; lia.
+  - discriminate.
+  - intros; discriminate.
+Qed.
+
+Lemma del_ready_weq w w' run : weq w w' -> del_ready (w_recs w) run -> del_ready (w_recs w') run.
+Proof. intros (E & _) H. now rewrite E. Qed.
+
+Lemma delete_handler_t (e : event) :
+  triple (fun s => Inv s /\ del_ready (w_recs (o_w s)) (e_run e)) (delete_handler c e) (fun _ s => Inv s).
+Proof.
+  unfold delete_handler.
+  set (K := fun w => del_ready (w_recs w) (e_run e)).
+  assert (HK : stable K) by (intros w w' E H; eapply del_ready_weq; eauto).
+  eapply (t_seq _ _ _ (fun r s => Inv s /\ K (o_w s) /\ forall x, r = Ok x -> x = lookup_run (o_w s) (e_run e))).
+  { apply (p_lookup_t K (e_run e) HK). }
+  2:{ intros e' s [HI _]. exact HI. }
+  intros r. destruct r as [r|]; [|apply t_fail; intros s [HI _]; exact HI].
+  set (K2 := fun w => lookup_run w (e_run e) = Some r /\ (r_state r = RSReqDataDeleted \/ r_state r = RSDataDeleted)).
+  assert (HK2 : stable K2).
+  { intros w w' E [H1 H2]. split; [rewrite (lookup_weq w w' _ E); exact H1|exact H2]. }
+  eapply (t_seq _ _ _ (fun _ s => Inv s /\ K2 (o_w s))).
+  2:{ intros repl. eapply t_pre; [|apply p_store_t]. intros s [HI [H1 H2]]. split; [exact HI|]. eapply delete_store_pre; eauto. apply HI. }
+  2:{ intros e' s [HI _]. exact HI. }
+  apply t_pre with (P' := fun s => Inv s /\ K2 (o_w s)).
+  { intros s (HI & (p & Hp & Hs) & Hl). split; [exact HI|]. specialize (Hl (Some r) eq_refl).
+    unfold K2. rewrite <- Hl. split; [reflexivity|].
+    rewrite lookup_run_eq in Hl. rewrite Hp in Hl. inversion Hl; subst. exact Hs. }
+  apply t_if; intros _; [apply t_ret; auto|].
+  destruct (r_obj r) as [seed tr|]; [|apply t_fail; intros s H; exact H].
+  eapply (t_seq _ _ _ (fun _ s => Inv s /\ K2 (o_w s))); [apply (t_quiet _ K2 (quiet_att_bump _ _) HK2)| |intros e' s H; exact H].
+  intros n.
+  eapply (t_seq _ _ _ (fun _ s => Inv s /\ K2 (o_w s))); [apply (t_quiet _ K2 quiet_get_w HK2)| |intros e' s H; exact H].
+  intros w.
+  eapply (t_seq _ _ _ (fun _ s => Inv s /\ K2 (o_w s))); [apply (t_quiet _ K2); [apply quiet_emit; reflexivity|exact HK2]| |intros e' s H; exact H].
+  intros _. destruct (Z.of_nat n <? ec_del c - 2); [apply t_fail; intros s H; exact H|apply t_ret; auto].
+Qed.
+
+Lemma firstn_In_sub {A} (n : nat) (l : list A) (x : A) : In x (firstn n l) -> In x l.
+Proof. revert l. induction n as [|n IH]; intros [|a l]; cbn; try tauto. intros [->|H]; [now left|right; apply IH, H]. Qed.
+
+(* ---------- outbox.go purgeOutbox ---------- *)
+Lemma do_send_WI (w : world) (o : oentry) :
+  WI w -> (o_topic o = TDelete -> del_ready (w_recs w) (o_run o)) -> WI (do_send w o).
+Proof.
+  intros [H1 H2 H3 H4 H5 H6] Hd. unfold do_send. constructor; cbn; try assumption.
+  - intros e He Ht. apply in_app_or in He as [He|[<-|[]]]; [apply H4; assumption|]. cbn in Ht. apply Hd, Ht.
+  - intros p idx e d Hin. destruct (H6 p idx e d Hin) as [A B]. split; [apply in_or_app; left; exact A|exact B].
+Qed.
+
+Lemma del_outbox_WI (w : world) (id : N) :
+  WI w -> WI (set_outbox w (filter (fun o => negb (N.eqb (o_id o) id)) (w_outbox w))).
+Proof.
+  intros [H1 H2 H3 H4 H5 H6]. constructor; cbn; try assumption.
+  intros o Ho Ht. apply filter_In in Ho as [Ho _]. apply H5; assumption.
+Qed.
+
+Lemma p_send_t (K : world -> Prop) (o : oentry) :
+  stable K ->
+  triple (fun s => Inv s /\ K (o_w s) /\ (o_topic o = TDelete -> del_ready (w_recs (o_w s)) (o_run o))) (p_send o)
+         (fun _ s => Inv s /\ K (o_w s)).
+Proof.
+  intros HK s ((HW & Hn & Htr) & HKs & Hd). unfold p_send.
+  match goal with |- context [prim ?k ?ctx ?T ?E ?X s] => destruct (prim_spec k ctx T E X s) as (d & s1 & _ & W & P & Tr & R) end.
+  rewrite R. destruct (disp_ret_run d tt s1) as (rr & Er & _). rewrite Er. cbn.
+  split; [split; [|split]|].
+  - rewrite W. destruct (disp_effect d); [apply do_send_WI; assumption|assumption].
+  - rewrite P. exact Hn.
+  - destruct Tr as [F|F]; rewrite F; [|exact Htr]. apply toks_ok_cons; [reflexivity|exact Htr].
+  - rewrite W. destruct (disp_effect d); [|exact HKs]. eapply HK; [|exact HKs]. unfold do_send. repeat split.
+Qed.
+
+Lemma p_del_outbox_t (K : world -> Prop) (id : N) :
+  stable K -> triple (fun s => Inv s /\ K (o_w s)) (p_del_outbox id) (fun _ s => Inv s /\ K (o_w s)).
+Proof.
+  intros HK s ((HW & Hn & Htr) & HKs). unfold p_del_outbox.
+  match goal with |- context [prim ?k ?ctx ?T ?E ?X s] => destruct (prim_spec k ctx T E X s) as (d & s1 & _ & W & P & Tr & R) end.
+  rewrite R. destruct (disp_ret_run d tt s1) as (rr & Er & _). rewrite Er. cbn.
+  split; [split; [|split]|].
+  - rewrite W. destruct (disp_effect d); [apply del_outbox_WI; assumption|assumption].
+  - rewrite P. exact Hn.
+  - destruct Tr as [F|F]; rewrite F; [|exact Htr]. apply toks_ok_cons; [reflexivity|exact Htr].
+  - rewrite W. destruct (disp_effect d); [|exact HKs]. eapply HK; [|exact HKs]. repeat split.
+Qed.
+
+Lemma p_list_outbox_t (limit : Z) :
+  triple Inv (p_list_outbox limit) (fun r s => Inv s /\ forall l, r = Ok l -> forall o, In o l -> In o (w_outbox (o_w s))).
+Proof.
+  intros s Hs. unfold p_list_outbox.
+  match goal with |- context [prim ?k ?ctx ?T ?E ?X s] =>
+    destruct (prim_quiet_run k ctx T E X s) as (d & s1 & St & Hq & Hw & R); [reflexivity|apply inert_id|] end.
+  rewrite R. destruct (disp_ret_run d (firstn (Z.to_nat limit) (w_outbox (o_w s))) s1) as (r & Er & Hr).
+  rewrite Er. cbn. destruct (quiet_Inv (fun _ => True) s s1 (stable_const True) Hq (conj Hs I)) as [HI _].
+  split; [exact HI|]. intros l Hl o Ho. rewrite (Hr l Hl) in Ho.
+  destruct Hq as (_ & _ & Eo & _). rewrite Eo. eapply firstn_In_sub; eauto.
+Qed.
+
+Lemma inert_roles_release u inst : inert (fun w => release_role w u inst).
+Proof. intros w. repeat split. Qed.
+Lemma inert_roles_acquire u inst : inert (fun w => acquire_role w u inst).
+Proof. intros w. repeat split. Qed.
+
+Lemma quiet_m_release u inst : quiet (m_release u inst).
+Proof. unfold m_release. apply quiet_put_w_same. intros w. repeat split. Qed.
+
+Lemma relay_entries_t (l : list oentry) :
+  triple (fun s => Inv s /\ forall o, In o l -> o_topic o = TDelete -> del_ready (w_recs (o_w s)) (o_run o))
+         (relay_entries l) (fun _ s => Inv s).
+Proof.
+  induction l as [|o tl IH]; cbn [relay_entries]; [apply t_ret; intros s [HI _]; exact HI|].
+  set (K := fun w => forall o', In o' (o :: tl) -> o_topic o' = TDelete -> del_ready (w_recs w) (o_run o')).
+  assert (HK : stable K).
+  { intros w w' E H o' Hin Ht. eapply del_ready_weq; eauto. }
+  eapply (t_seq _ _ _ (fun _ s => Inv s /\ K (o_w s))).
+  { apply (t_quiet _ K); [apply quiet_p_call, inert_id|exact HK]. }
+  2:{ intros e s [HI _]. exact HI. }
+  intros _.
+  eapply (t_seq _ _ _ (fun _ s => Inv s /\ K (o_w s))).
+  { apply t_catch. eapply t_pre; [|apply (p_send_t K o HK)]. intros s [HI HKs]. split; [exact HI|split; [exact HKs|]]. apply HKs. now left. }
+  2:{ intros e s [HI _]. exact HI. }
+  intros r.
+  eapply (t_seq _ _ _ (fun _ s => Inv s /\ K (o_w s))).
+  { apply t_catch. apply (t_quiet _ K); [apply quiet_p_call, inert_id|exact HK]. }
+  2:{ intros e s [HI _]. exact HI. }
+  intros x. destruct r as [_|e]; [|apply t_fail; intros s [HI _]; exact HI].
+  destruct x as [_|e]; [|apply t_fail; intros s [HI _]; exact HI].
+  eapply (t_seq _ _ _ (fun _ s => Inv s /\ K (o_w s))).
+  { apply (p_del_outbox_t K (o_id o) HK). }
+  2:{ intros e s [HI _]. exact HI. }
+  intros _. eapply t_pre; [|exact IH]. intros s [HI HKs]. split; [exact HI|]. intros o' Hin. apply HKs. now right.
+Qed.
+
+(* ---------- trigger.go, callback.go, the controller API ---------- *)
+Lemma set_nrun_WI (w : world) : WI w -> WI (set_nrun w (w_nrun w + 1)%N).
+Proof.
+  intros [H1 H2 H3 H4 H5 H6]. constructor; cbn; try assumption.
+  intros r Hr. specialize (H2 r Hr). lia.
+Qed.
+
+Lemma trigger_store_pre (w : world) (fid : N) (st0 seed : Z) :
+  WI w -> is_valid g st0 = true ->
+  store_pre (set_nrun w (w_nrun w + 1)%N)
+            (bump (mkRecord 0%N fid (w_nrun w) RSInitiated st0 (OVal seed []) (w_now w) (w_now w) 0 0%N st0)).
+Proof.
+  intros HW Hv.
+  set (r' := bump (mkRecord 0%N fid (w_nrun w) RSInitiated st0 (OVal seed []) (w_now w) (w_now w) 0 0%N st0)).
+  set (w' := set_nrun w (w_nrun w + 1)%N).
+  assert (Hnone : lookup_run w' (r_run r') = None).
+  { unfold lookup_run. cbn. destruct (find_first _ (w_recs w)) as [p|] eqn:E; [|reflexivity].
+    apply find_first_some in E as [Hin Hq]. apply N.eqb_eq in Hq. pose proof (wi_lt c w HW p Hin). lia. }
+  destruct (stamp_fields w' r') as (F1 & F2 & F3 & F4 & F5 & F6 & F7 & F8).
+  unfold store_pre. rewrite Hnone. split; [|split; [|split]].
+  - unfold store_ok. rewrite stamp_state, F3, F6, F7. cbn. rewrite Z.eqb_refl. unfold g in Hv. rewrite Hv. reflexivity.
+  - destruct F8 as [-> | ->]; cbn; lia.
+  - discriminate.
+  - intros _. cbn. lia.
+Qed.
+
+Lemma api_trigger_t (fid : N) (start seed : Z) : triple Inv (api_trigger c fid start seed) (fun _ s => Inv s).
+Proof.
+  unfold api_trigger. destruct (if start =? 0 then default_start (ec_graph c) else Some start) as [st0|]; [|apply t_fail; auto].
+  apply t_if; intros Hv; [apply t_fail; auto|]. apply Bool.negb_false_iff in Hv.
+  eapply (t_seq _ _ _ (fun _ s => Inv s)).
+  { eapply t_conseq; [|apply (p_latest_t (fun _ => True) fid (stable_const True))|].
+    - intros s HI. split; [exact HI|exact I].
+    - intros r s (HI & _). exact HI. }
+  2:{ intros e s HI. exact HI. }
+  intros lastr. apply t_if; intros _; [apply t_fail; auto|].
+  eapply (t_seq _ _ _ (fun r s => Inv s /\ r = Ok (o_w s))).
+  { apply t_get_w. intros s HI. auto. }
+  2:{ intros e s [_ H]. discriminate. }
+  intros w. apply t_pre with (P' := fun s => w = o_w s /\ Inv s).
+  { intros s [HI H]. inversion H; subst. auto. }
+  eapply (t_seq _ _ _ (fun _ s => Inv s /\ o_w s = set_nrun w (w_nrun w + 1)%N /\ WI w)).
+  { apply t_put_w. intros s s' (Hw & (HW & Hn & Htr)) E1 E2 E3. subst w. split; [|split; [exact E1|exact HW]].
+    split; [rewrite E1; apply set_nrun_WI, HW|split; [rewrite E2; exact Hn|rewrite E3; exact Htr]]. }
+  2:{ intros e s [HI _]. exact HI. }
+  intros _. eapply t_pre; [|apply p_store_t]. intros s (HI & E & HW). split; [exact HI|]. rewrite E. apply trigger_store_pre; assumption.
+Qed.
+
+Lemma last_opt_filter_in {A} (f : A -> bool) (l : list A) (x : A) : last_opt (filter f l) = Some x -> In x l.
+Proof. intros H. apply last_opt_in in H. apply filter_In in H. apply H. Qed.
+
+Lemma api_callbacks_t (fid : N) (status : Z) (cbs : list cbcfg) :
+  forall j, triple Inv (api_callbacks c fid status cbs j) (fun _ s => Inv s).
+Proof.
+  induction cbs as [|cb tl IH]; intros j; cbn [api_callbacks]; [apply t_ret; auto|].
+  apply t_if; intros _; [apply IH|].
+  eapply (t_seq _ _ _ (fun r s => Inv s /\ forall x, r = Ok x -> x = latest_fid (o_w s) fid)).
+  { eapply t_conseq; [|apply (p_latest_t (fun _ => True) fid (stable_const True))|].
+    - intros s HI. split; [exact HI|exact I].
+    - intros r s (HI & _ & H). split; [exact HI|exact H]. }
+  2:{ intros e s [HI _]. exact HI. }
+  intros wr. destruct wr as [wr|]; [|apply t_fail; intros s [HI _]; exact HI].
+  eapply (t_seq _ _ _ (fun _ s => Inv s)); [|intros _; apply IH|intros e s HI; exact HI].
+  apply t_if; intros _; [apply t_ret; intros s [HI _]; exact HI|].
+  apply t_if; intros Hns; [apply t_ret; intros s [HI _]; exact HI|].
+  unfold build_run. destruct (r_obj wr) eqn:Eo; [|apply t_fail; intros s [HI _]; exact HI].
+  eapply (t_seq _ _ _ (fun r0 s => r0 = Ok (promote wr) /\ Inv s /\ live (o_w s) (promote wr))).
+  { apply t_ret. intros s [HI Hl]. split; [reflexivity|split; [exact HI|]].
+    specialize (Hl (Some wr) eq_refl). symmetry in Hl. unfold latest_fid in Hl. apply last_opt_filter_in in Hl.
+    eapply live_promote; [apply (WI_lookup_in c); [apply HI|exact Hl]|exact Hns]. }
+  2:{ intros e s (H & _). discriminate. }
+  intros view. apply t_pre with (P' := fun s => view = promote wr /\ Inv s /\ live (o_w s) view).
+  { intros s (H & HI & Hl). inversion H; subst. auto. }
+  eapply t_seq.
+  - eapply t_pre; [|apply (invoke_t (fun _ => True) (UFCallback status j) (cb_beh cb) status view (stable_const True))].
+    intros s (_ & HI & Hl). auto.
+  - intros [[obj' oc] ctl]. destruct oc as [z|oe].
+    + apply t_if; intros Hskip; [apply t_ret; intros s [HI _]; exact HI|].
+      eapply t_pre; [|apply updater_t]. intros s [HI H]. split; [exact HI|].
+      destruct (H obj' (inl z) ctl eq_refl) as [Hz|(_ & Hl & _)]; [exfalso; eapply skip_not_m1; eauto|].
+      apply live_upd_ready, Hl.
+    + apply t_fail. intros s [HI _]. exact HI.
+  - intros e s [HI _]. exact HI.
+Qed.
+
+Lemma api_ctl_t (run : N) (o : ctlop) : triple Inv (api_ctl c run o) (fun _ s => Inv s).
+Proof.
+  unfold api_ctl.
+  eapply (t_seq _ _ _ (fun r s => Inv s /\ forall x, r = Ok x -> x = lookup_run (o_w s) run)).
+  { eapply t_conseq; [|apply (p_lookup_t (fun _ => True) run (stable_const True))|].
+    - intros s HI. split; [exact HI|exact I].
+    - intros r s (HI & _ & H). split; [exact HI|exact H]. }
+  2:{ intros e s [HI _]. exact HI. }
+  intros r. destruct r as [r|]; [|apply t_fail; intros s [HI _]; exact HI].
+  eapply t_seq.
+  - eapply t_pre; [|apply (ctl_do_t (fun w => synced w r) r (ctl_target o) 4%N (synced_stable r))].
+    intros s (HI & Hl). assert (Hs : synced (o_w s) r) by (eapply synced_self; symmetry; apply Hl; reflexivity).
+    split; [exact HI|split; [exact Hs|]]. intros r' Hr'.
+    eapply ctl_store_pre; try exact Hr'; [apply HI|exact Hs|destruct o; discriminate|destruct o; discriminate].
+  - intros x. destruct (fst x); [apply t_ret|apply t_fail]; intros s [HI _]; exact HI.
+  - intros e s [HI _]. exact HI.
+Qed.
+
+(* ---------- consumer.go / workflow.go: the process operations ---------- *)
+Lemma quiet_ite {A} (b : ost -> bool) (m1 m2 : M A) : quiet m1 -> quiet m2 -> quiet (fun s => if b s then m1 s else m2 s).
+Proof. intros H1 H2 s. destruct (b s); [apply H1|apply H2]. Qed.
+
+Lemma quiet_exit_err inst u close e : quiet (exit_err c inst u close e).
+Proof.
+  unfold exit_err. apply quiet_bind.
+  { destruct close; [|apply quiet_ret]. apply quiet_bind; [apply quiet_catch, quiet_p_call, inert_id|intros _; apply quiet_ret]. }
+  intros _. destruct (e =? ECancel).
+  { apply quiet_bind; [apply quiet_m_release|intros _; apply quiet_ret]. }
+  apply quiet_bind; [apply quiet_get_w|]. intros w.
+  apply quiet_ite; [|apply quiet_ite].
+  - apply quiet_bind; [apply quiet_emit; reflexivity|]. intros _. apply quiet_bind; [apply quiet_m_release|intros _; apply quiet_ret].
+  - apply quiet_bind; [apply quiet_emit; reflexivity|]. intros _. apply quiet_ret.
+  - apply quiet_bind; [apply quiet_emit; reflexivity|]. intros _. apply quiet_bind; [apply quiet_m_release|intros _; apply quiet_ret].
+Qed.
+
+Definition not_lag (ps : pstate) : Prop := match ps with PLag _ _ _ => False | _ => True end.
+Definition noLag (m : M pstate) : Prop := forall s, match fst (m s) with Ok ps => not_lag ps | Err _ => True end.
+
+Lemma noLag_bind {A} (m : M A) (f : A -> M pstate) : (forall a, noLag (f a)) -> noLag (bind m f).
+Proof. intros H s. unfold bind. destruct (m s) as [[a|e] s']; cbn; [apply H|exact I]. Qed.
+Lemma noLag_ret ps : not_lag ps -> noLag (ret ps).
+Proof. intros H s. exact H. Qed.
+Lemma noLag_fail e : noLag (fail e).
+Proof. intros s. exact I. Qed.
+Lemma noLag_ite (b : ost -> bool) (m1 m2 : M pstate) : noLag m1 -> noLag m2 -> noLag (fun s => if b s then m1 s else m2 s).
+Proof. intros H1 H2 s. destruct (b s); [apply H1|apply H2]. Qed.
+
+Lemma noLag_exit_err inst u close e : noLag (exit_err c inst u close e).
+Proof.
+  unfold exit_err. apply noLag_bind. intros _. destruct (e =? ECancel).
+  { apply noLag_bind. intros _. apply noLag_ret. exact I. }
+  apply noLag_bind. intros w. apply noLag_ite; [|apply noLag_ite].
+  - apply noLag_bind. intros _. apply noLag_bind. intros _. apply noLag_ret. exact I.
+  - apply noLag_bind. intros _. apply noLag_ret. exact I.
+  - apply noLag_bind. intros _. apply noLag_bind. intros _. apply noLag_ret. exact I.
+Qed.
+
+(* the result of a process operation: the invariant, and an event held for the consume lag is an event of the log *)
+Definition ev_ok (w : world) (u : eunit) (e : event) : Prop := In e (w_log w) /\ e_topic e = unit_topic u.
+Definition op_post (u : eunit) (r : res pstate) (s : ost) : Prop :=
+  Inv s /\ forall idx e d, r = Ok (PLag idx e d) -> ev_ok (o_w s) u e.
+
+Lemma guarded_t (P : ost -> Prop) inst u close (m : M pstate) :
+  triple P m (op_post u) -> triple P (guarded c inst u close m) (op_post u).
+Proof.
+  intros Hm s Hs. unfold guarded. specialize (Hm s Hs). destruct (m s) as [[ps|e] s']; cbn [fst snd] in *; [exact Hm|].
+  destruct Hm as [HI _].
+  pose proof (quiet_exit_err inst u close e s') as Hqs.
+  destruct (quiet_Inv (fun _ => True) s' _ (stable_const True) Hqs (conj HI I)) as [HI' _].
+  pose proof (noLag_exit_err inst u close e s') as Hnl.
+  destruct (exit_err c inst u close e s') as [[ps|e'] s'']; cbn [fst snd] in *; split; try exact HI'; intros idx ev d Hx; inversion Hx; subst.
+  destruct Hnl.
+Qed.
+
+Lemma op_post_nolag (u : eunit) (ps : pstate) (s : ost) : Inv s -> not_lag ps -> op_post u (Ok ps) s.
+Proof. intros HI Hn. split; [exact HI|]. intros idx e d Hx. inversion Hx; subst. destruct Hn. Qed.
+
+Lemma op_post_err (u : eunit) (e : err) (s : ost) : Inv s -> op_post u (Err e) s.
+Proof. intros HI. split; [exact HI|]. intros; discriminate. Qed.
+
+(* quiet computations also leave the log alone *)
+Lemma t_quiet_log {A} (m : M A) (L : list event -> Prop) :
+  quiet m -> triple (fun s => Inv s /\ L (w_log (o_w s))) m (fun _ s' => Inv s' /\ L (w_log (o_w s'))).
+Proof.
+  intros Hq s [HI HL]. specialize (Hq s).
+  destruct (quiet_Inv (fun _ => True) s _ (stable_const True) Hq (conj HI I)) as [HI' _]. split; [exact HI'|].
+  destruct Hq as (_ & El & _). rewrite El. exact HL.
+Qed.
+
+Lemma topic_eqb_eq (a b : topic) : topic_eqb a b = true -> a = b.
+Proof. destruct a, b; cbn; intros H; try discriminate; try reflexivity. apply Z.eqb_eq in H. now subst. Qed.
+
+Lemma next_event_in (t : topic) (l : list event) :
+  forall i pos idx e, next_event t l i pos = Some (idx, e) -> In e l /\ e_topic e = t.
+Proof.
+  induction l as [|a l IH]; intros i pos idx e; cbn; [discriminate|].
+  destruct (Nat.leb pos i && topic_eqb (e_topic a) t) eqn:E.
+  - intros H. inversion H; subst. apply andb_prop in E as [_ E]. split; [now left|apply topic_eqb_eq, E].
+  - intros H. destruct (IH _ _ _ _ H) as [A B]. split; [now right|exact B].
+Qed.
+
+Lemma unit_handler_t (inst : Z) (u : eunit) (e : event) :
+  triple (fun s => Inv s /\ ev_ok (o_w s) u e) (unit_handler c inst u e) (fun _ s => Inv s).
+Proof.
+  unfold unit_handler. destruct u as [|st i n|st|st|hs| | |fid]; try (apply t_fail; intros s [HI _]; exact HI).
+  - destruct (find_step c st) as [sc|]; [|apply t_fail; intros s [HI _]; exact HI].
+    eapply t_pre; [|apply step_handler_t, invoke_fn_ok]. intros s [HI _]. exact HI.
+  - eapply t_pre; [|apply step_handler_t, inserter_fn_ok]. intros s [HI _]. exact HI.
+  - eapply t_pre; [|apply (t_inv_quiet _ (quiet_hook_handler _ _ _))]. intros s [HI _]. exact HI.
+  - eapply t_pre; [|apply delete_handler_t]. intros s [HI [Hin Ht]]. split; [exact HI|].
+    destruct HI as (HW & _). apply (wi_del_log c _ HW e Hin Ht).
+  - eapply t_pre; [|apply retry_handler_t]. intros s [HI _]. exact HI.
+Qed.
+
+Lemma after_lag_t (inst : Z) (u : eunit) (idx : nat) (e : event) :
+  triple (fun s => Inv s /\ ev_ok (o_w s) u e) (after_lag c inst u idx e) (op_post u).
+Proof.
+  unfold after_lag.
+  eapply (t_seq _ _ _ (fun _ s => Inv s)).
+  - apply t_if; intros _.
+    + eapply t_pre; [|apply (t_inv_quiet _ (quiet_p_ack _ _ _))]. intros s [HI _]. exact HI.
+    + eapply (t_seq _ _ _ (fun _ s => Inv s)); [apply unit_handler_t|intros _; apply (t_inv_quiet _ (quiet_p_ack _ _ _))|intros e' s HI; exact HI].
+  - intros _. apply t_ret. intros s HI. apply op_post_nolag; [exact HI|exact I].
+  - intros e' s HI. apply op_post_err, HI.
+Qed.
+
+Lemma consume_iter_t (inst : Z) (u : eunit) : triple Inv (consume_iter c inst u) (op_post u).
+Proof.
+  unfold consume_iter.
+  eapply (t_seq _ _ _ (fun r s => Inv s /\ r = Ok (o_w s))).
+  { apply t_get_w. intros s HI. auto. }
+  2:{ intros e s [_ H]. discriminate. }
+  intros w. apply t_pre with (P' := fun s => Inv s /\ w_log (o_w s) = w_log w).
+  { intros s [HI H]. inversion H; subst. auto. }
+  eapply (t_seq _ _ _ (fun _ s => Inv s /\ w_log (o_w s) = w_log w)).
+  { apply (t_quiet_log _ (fun l => l = w_log w) quiet_lease_live). }
+  2:{ intros e s [HI _]. apply op_post_err, HI. }
+  intros live.
+  destruct (next_event (unit_topic u) (w_log w) 0 (get_cursor w u)) as [[idx e]|] eqn:En.
+  - apply next_event_in in En as [Hin Ht].
+    eapply (t_seq _ _ _ (fun _ s => Inv s /\ w_log (o_w s) = w_log w)).
+    { apply (t_quiet_log _ (fun l => l = w_log w) (quiet_dispatch _ _)). }
+    2:{ intros e' s [HI _]. apply op_post_err, HI. }
+    intros d.
+    assert (Hother : triple (fun s => Inv s /\ w_log (o_w s) = w_log w)
+                            (emit (TCall KRV [] (disp_res d) []) ;;; disp_ret d PRun) (op_post u)).
+    { eapply (t_seq _ _ _ (fun _ s => Inv s)).
+      - eapply t_pre; [|(apply t_inv_quiet, quiet_emit; reflexivity)]. intros s [HI _]. exact HI.
+      - intros _. apply t_disp_ret; intros; [apply op_post_nolag; [assumption|exact I]|apply op_post_err; assumption].
+      - intros e' s HI. apply op_post_err, HI. }
+    assert (Hok : triple (fun s => Inv s /\ w_log (o_w s) = w_log w)
+                         (emit (TRecv e) ;;;
+                          (let lag := unit_lag c u in
+                           if (lag >? 0) && (e_created e + lag >? w_now w)
+                           then emit (TCall KTW [e_created e + lag] RBlocked []) ;;; ret (PLag idx e (e_created e + lag))
+                           else after_lag c inst u idx e)) (op_post u)).
+    { eapply (t_seq _ _ _ (fun _ s => Inv s /\ w_log (o_w s) = w_log w)).
+      - apply (t_quiet_log _ (fun l => l = w_log w)). apply quiet_emit. reflexivity.
+      - intros _. cbv zeta. apply t_if; intros _.
+        + eapply (t_seq _ _ _ (fun _ s => Inv s /\ w_log (o_w s) = w_log w)).
+          * apply (t_quiet_log _ (fun l => l = w_log w)). apply quiet_emit. reflexivity.
+          * intros _. apply t_ret. intros s [HI El]. split; [exact HI|]. intros idx' e' d' Hx. inversion Hx; subst.
+            split; [rewrite El; exact Hin|exact Ht].
+          * intros e' s [HI _]. apply op_post_err, HI.
+        + eapply t_pre; [|apply after_lag_t]. intros s [HI El]. split; [exact HI|]. split; [rewrite El; exact Hin|exact Ht].
+      - intros e' s [HI _]. apply op_post_err, HI. }
+    destruct d; assumption.
+  - destruct live.
+    + eapply (t_seq _ _ _ (fun _ s => Inv s)).
+      * eapply t_pre; [|(apply t_inv_quiet, quiet_emit; reflexivity)]. intros s [HI _]. exact HI.
+      * intros _. apply t_ret. intros s HI. apply op_post_nolag; [exact HI|exact I].
+      * intros e' s HI. apply op_post_err, HI.
+    + eapply (t_seq _ _ _ (fun _ s => Inv s)).
+      * eapply t_pre; [|apply (t_inv_quiet _ (quiet_dispatch _ _))]. intros s [HI _]. exact HI.
+      * intros d. eapply (t_seq _ _ _ (fun _ s => Inv s)).
+        -- (apply t_inv_quiet, quiet_emit; reflexivity).
+        -- intros _. apply t_disp_ret; intros; [apply op_post_nolag; [assumption|exact I]|apply op_post_err; assumption].
+        -- intros e' s HI. apply op_post_err, HI.
+      * intros e' s HI. apply op_post_err, HI.
+Qed.
+
+Lemma poll_once_t (inst : Z) (u : eunit) (st : Z) : triple Inv (poll_once c inst u st) (op_post u).
+Proof.
+  unfold poll_once.
+  eapply (t_seq _ _ _ (fun _ s => Inv s)); [apply (t_inv_quiet _ (quiet_p_list_valid _))| |intros e s HI; apply op_post_err, HI].
+  intros l. eapply (t_seq _ _ _ (fun _ s => Inv s)); [apply poll_timers_t| |intros e s HI; apply op_post_err, HI].
+  intros _. apply t_ret. intros s HI. apply op_post_nolag; [exact HI|exact I].
+Qed.
+
+Lemma sched_after_wait_t (inst : Z) (sc : schedcfg) : triple Inv (sched_after_wait c inst sc) (op_post (ESched (sd_fid sc))).
+Proof.
+  unfold sched_after_wait.
+  eapply (t_seq _ _ _ (fun _ s => Inv s)).
+  - destruct (sd_filter sc =? 0); [apply t_ret; auto|].
+    apply t_inv_quiet. apply quiet_bind; [apply quiet_att_bump|]. intros n.
+    apply quiet_bind; [apply quiet_get_w|]. intros w. apply quiet_bind; [apply quiet_emit; reflexivity|]. intros _. apply quiet_ret.
+  - intros ok. eapply (t_seq _ _ _ (fun _ s => Inv s)).
+    + destruct ok; [|apply t_ret; auto].
+      eapply (t_seq _ _ _ (fun _ s => Inv s)); [apply t_catch, api_trigger_t| |intros e s HI; exact HI].
+      intros r. destruct r as [_|e]; [apply t_ret; auto|]. destruct (e =? 3); [apply t_ret|apply t_fail]; auto.
+    + intros _. eapply (t_seq _ _ _ (fun _ s => Inv s)); [apply (t_inv_quiet _ (quiet_m_release _ _))| |intros e s HI; apply op_post_err, HI].
+      intros _. apply t_ret. intros s HI. apply op_post_nolag; [exact HI|exact I].
+    + intros e s HI. apply op_post_err, HI.
+  - intros e s HI. apply op_post_err, HI.
+Qed.
+
+Lemma sched_body_t (inst : Z) (sc : schedcfg) : triple Inv (sched_body c inst sc) (op_post (ESched (sd_fid sc))).
+Proof.
+  unfold sched_body.
+  eapply (t_seq _ _ _ (fun _ s => Inv s)).
+  { eapply t_conseq; [|apply (p_latest_t (fun _ => True) (sd_fid sc) (stable_const True))|].
+    - intros s HI. split; [exact HI|exact I].
+    - intros r s (HI & _). exact HI. }
+  2:{ intros e s HI. apply op_post_err, HI. }
+  intros lat. eapply (t_seq _ _ _ (fun _ s => Inv s)); [apply (t_inv_quiet _ quiet_get_w)| |intros e s HI; apply op_post_err, HI].
+  intros w. cbv zeta. apply t_if; intros _.
+  - eapply (t_seq _ _ _ (fun _ s => Inv s)); [(apply t_inv_quiet, quiet_emit; reflexivity)| |intros e s HI; apply op_post_err, HI].
+    intros _. apply t_ret. intros s HI. apply op_post_nolag; [exact HI|exact I].
+  - eapply (t_seq _ _ _ (fun _ s => Inv s)); [(apply t_inv_quiet, quiet_emit; reflexivity)| |intros e s HI; apply op_post_err, HI].
+    intros _. apply sched_after_wait_t.
+Qed.
+
+Lemma find_sched_fid (fid : N) (sc : schedcfg) : find_sched c fid = Some sc -> sd_fid sc = fid.
+Proof. unfold find_sched. intros H. apply find_first_some in H as [_ H]. now apply N.eqb_eq in H. Qed.
+
+(* one scheduling step of one background process *)
+Lemma proc_op_t (inst : Z) (u : eunit) (ps : pstate) :
+  triple (fun s => Inv s /\ forall idx e d, ps = PLag idx e d -> ev_ok (o_w s) u e) (proc_op c inst u ps) (op_post u).
+Proof.
+  unfold proc_op. destruct ps as [| |idx e deadline|deadline|deadline].
+  - (* PIdle *)
+    eapply (t_seq _ _ _ (fun r s => Inv s /\ r = Ok (o_w s))).
+    { apply t_get_w. intros s [HI _]. auto. }
+    2:{ intros e s [_ H]. discriminate. }
+    intros w. apply t_pre with (P' := fun s => Inv s /\ o_w s = w).
+    { intros s [HI H]. inversion H; subst. auto. }
+    destruct (role_holder w u).
+    { eapply (t_seq _ _ _ (fun _ s => Inv s)).
+      - eapply t_pre; [|(apply t_inv_quiet, quiet_emit; reflexivity)]. intros s [HI _]. exact HI.
+      - intros _. apply t_ret. intros s HI. apply op_post_nolag; [exact HI|exact I].
+      - intros e s HI. apply op_post_err, HI. }
+    eapply (t_seq _ _ _ (fun _ s => Inv s /\ o_w s = w)).
+    { apply t_dispatch. intros s s' d [HI Hw] E1 E2 E3 _. split; [|congruence].
+      destruct HI as (HW & Hn & Htr). split; [rewrite E1; exact HW|split; [rewrite E2; exact Hn|rewrite E3; exact Htr]]. }
+    2:{ intros e s [HI _]. apply op_post_err, HI. }
+    intros d.
+    assert (Hfail : triple (fun s => Inv s /\ o_w s = w) (emit (TCall KAW [] (disp_res d) []) ;;; ret PIdle) (op_post u)).
+    { eapply (t_seq _ _ _ (fun _ s => Inv s)).
+      - eapply t_pre; [|(apply t_inv_quiet, quiet_emit; reflexivity)]. intros s [HI _]. exact HI.
+      - intros _. apply t_ret. intros s HI. apply op_post_nolag; [exact HI|exact I].
+      - intros e s HI. apply op_post_err, HI. }
+    assert (Hgo : triple (fun s => Inv s /\ o_w s = w)
+              (emit (TCall KAW [] ROk []) ;;; put_w (acquire_role w u inst) ;;;
+               match u with
+               | EOutbox => guarded c inst u false (l <- p_list_outbox (ec_limit c) ;; relay_entries l ;;; m_release u inst ;;; ret PIdle)
+               | EPoller s0 => guarded c inst u false (poll_once c inst u s0)
+               | ESched fid => match find_sched c fid with
+                               | Some sc => guarded c inst u false (sched_body c inst sc)
+                               | None => m_release u inst ;;; ret PIdle
+                               end
+               | _ => guarded c inst u false (p_call KNR true [] (fun w0 => w0) (fun _ => []) ;;; ret PRun)
+               end) (op_post u)).
+    { eapply (t_seq _ _ _ (fun _ s => Inv s /\ o_w s = w)).
+      { apply t_emit. intros s s' [HI Hw] E1 E2 E3. split; [|congruence].
+        destruct HI as (HW & Hn & Htr). split; [rewrite E1; exact HW|split; [rewrite E2; exact Hn|]].
+        destruct E3 as [E|E]; rewrite E; [apply toks_ok_cons; [reflexivity|exact Htr]|exact Htr]. }
+      2:{ intros e s [HI _]. apply op_post_err, HI. }
+      intros _. eapply (t_seq _ _ _ (fun _ s => Inv s)).
+      { apply t_put_w. intros s s' [HI Hw] E1 E2 E3. destruct HI as (HW & Hn & Htr).
+        split; [rewrite E1; eapply WI_frame; try exact HW; rewrite <- Hw; reflexivity|split; [rewrite E2; exact Hn|rewrite E3; exact Htr]]. }
+      2:{ intros e s HI. apply op_post_err, HI. }
+      intros _.
+      assert (Hcons : triple Inv (guarded c inst u false (p_call KNR true [] (fun w0 => w0) (fun _ => []) ;;; ret PRun)) (op_post u)).
+      { apply guarded_t. eapply (t_seq _ _ _ (fun _ s => Inv s)); [apply (t_inv_quiet _ (quiet_p_call _ _ _ _ _ inert_id))| |intros e s HI; apply op_post_err, HI].
+        intros _. apply t_ret. intros s HI. apply op_post_nolag; [exact HI|exact I]. }
+      destruct u as [|st i n|st|st|hs| | |fid]; try exact Hcons.
+      - apply guarded_t.
+        eapply t_seq; [apply p_list_outbox_t| |intros e s [HI _]; apply op_post_err, HI].
+        intros l. eapply (t_seq _ _ _ (fun _ s => Inv s)).
+        + eapply t_pre; [|apply relay_entries_t]. intros s [HI Hl]. split; [exact HI|]. intros o Ho Ht.
+          destruct HI as (HW & _). apply (wi_del_out c _ HW o); [apply (Hl l eq_refl o Ho)|exact Ht].
+        + intros _. eapply (t_seq _ _ _ (fun _ s => Inv s)); [apply (t_inv_quiet _ (quiet_m_release _ _))| |intros e s HI; apply op_post_err, HI].
+          intros _. apply t_ret. intros s HI. apply op_post_nolag; [exact HI|exact I].
+        + intros e s HI. apply op_post_err, HI.
+      - apply guarded_t, poll_once_t.
+      - destruct (find_sched c fid) as [sc|] eqn:Ef.
+        + rewrite <- (find_sched_fid fid sc Ef). apply guarded_t, sched_body_t.
+        + eapply (t_seq _ _ _ (fun _ s => Inv s)); [apply (t_inv_quiet _ (quiet_m_release _ _))| |intros e s HI; apply op_post_err, HI].
+          intros _. apply t_ret. intros s HI. apply op_post_nolag; [exact HI|exact I]. }
+    destruct d; assumption.
+  - (* PRun *)
+    destruct u as [|st i n|st|st|hs| | |fid];
+      try (eapply t_pre; [|apply guarded_t, consume_iter_t]; intros s [HI _]; exact HI);
+      try (apply t_ret; intros s [HI _]; apply op_post_nolag; [exact HI|exact I]).
+    eapply t_pre; [|apply guarded_t, poll_once_t]. intros s [HI _]. exact HI.
+  - (* PLag *)
+    eapply (t_seq _ _ _ (fun _ s => Inv s /\ In e (w_log (o_w s)) /\ e_topic e = unit_topic u)).
+    { apply t_get_w. intros s [HI H]. destruct (H idx e deadline eq_refl). auto. }
+    2:{ intros e' s [HI _]. apply op_post_err, HI. }
+    intros w.
+    eapply (t_seq _ _ _ (fun _ s => Inv s /\ In e (w_log (o_w s)) /\ e_topic e = unit_topic u)).
+    { apply (t_quiet_log _ (fun l => In e l /\ e_topic e = unit_topic u) quiet_lease_live). }
+    2:{ intros e' s [HI _]. apply op_post_err, HI. }
+    intros live. apply t_if; intros _; [|apply t_if; intros _].
+    + eapply (t_seq _ _ _ (fun _ s => Inv s)).
+      * eapply t_pre; [|(apply t_inv_quiet, quiet_emit; reflexivity)]. intros s [HI _]. exact HI.
+      * intros _. apply guarded_t. apply t_fail. intros s HI. apply op_post_err, HI.
+      * intros e' s HI. apply op_post_err, HI.
+    + eapply (t_seq _ _ _ (fun _ s => Inv s /\ In e (w_log (o_w s)) /\ e_topic e = unit_topic u)).
+      * apply (t_quiet_log _ (fun l => In e l /\ e_topic e = unit_topic u)). apply quiet_emit. reflexivity.
+      * intros _. apply t_ret. intros s (HI & H). split; [exact HI|]. intros idx' e' d' Hx. inversion Hx; subst. exact H.
+      * intros e' s [HI _]. apply op_post_err, HI.
+    + eapply (t_seq _ _ _ (fun _ s => Inv s /\ In e (w_log (o_w s)) /\ e_topic e = unit_topic u)).
+      * apply (t_quiet_log _ (fun l => In e l /\ e_topic e = unit_topic u)). apply quiet_emit. reflexivity.
+      * intros _. apply guarded_t. eapply t_pre; [|apply after_lag_t]. intros s (HI & H). split; [exact HI|exact H].
+      * intros e' s [HI _]. apply op_post_err, HI.
+  - (* PBackoff *)
+    eapply (t_seq _ _ _ (fun _ s => Inv s)); [eapply t_pre; [|apply (t_inv_quiet _ quiet_get_w)]; intros s [HI _]; exact HI| |intros e s HI; apply op_post_err, HI].
+    intros w. eapply (t_seq _ _ _ (fun _ s => Inv s)); [apply (t_inv_quiet _ quiet_lease_live)| |intros e s HI; apply op_post_err, HI].
+    intros live. apply t_if; intros _; [|apply t_if; intros _].
+    + eapply (t_seq _ _ _ (fun _ s => Inv s)); [(apply t_inv_quiet, quiet_emit; reflexivity)| |intros e s HI; apply op_post_err, HI].
+      intros _. eapply (t_seq _ _ _ (fun _ s => Inv s)); [apply (t_inv_quiet _ (quiet_m_release _ _))| |intros e s HI; apply op_post_err, HI].
+      intros _. apply t_ret. intros s HI. apply op_post_nolag; [exact HI|exact I].
+    + eapply (t_seq _ _ _ (fun _ s => Inv s)); [(apply t_inv_quiet, quiet_emit; reflexivity)| |intros e s HI; apply op_post_err, HI].
+      intros _. apply t_ret. intros s HI. apply op_post_nolag; [exact HI|exact I].
+    + eapply (t_seq _ _ _ (fun _ s => Inv s)); [(apply t_inv_quiet, quiet_emit; reflexivity)| |intros e s HI; apply op_post_err, HI].
+      intros _. eapply (t_seq _ _ _ (fun _ s => Inv s)); [apply (t_inv_quiet _ (quiet_m_release _ _))| |intros e s HI; apply op_post_err, HI].
+      intros _. apply t_ret. intros s HI. apply op_post_nolag; [exact HI|exact I].
+  - (* PWait *)
+    eapply (t_seq _ _ _ (fun _ s => Inv s)); [eapply t_pre; [|apply (t_inv_quiet _ quiet_get_w)]; intros s [HI _]; exact HI| |intros e s HI; apply op_post_err, HI].
+    intros w. eapply (t_seq _ _ _ (fun _ s => Inv s)); [apply (t_inv_quiet _ quiet_lease_live)| |intros e s HI; apply op_post_err, HI].
+    intros live. apply t_if; intros _; [|apply t_if; intros _].
+    + eapply (t_seq _ _ _ (fun _ s => Inv s)); [(apply t_inv_quiet, quiet_emit; reflexivity)| |intros e s HI; apply op_post_err, HI].
+      intros _. apply guarded_t. apply t_fail. intros s HI. apply op_post_err, HI.
+    + eapply (t_seq _ _ _ (fun _ s => Inv s)); [(apply t_inv_quiet, quiet_emit; reflexivity)| |intros e s HI; apply op_post_err, HI].
+      intros _. apply t_ret. intros s HI. apply op_post_nolag; [exact HI|exact I].
+    + eapply (t_seq _ _ _ (fun _ s => Inv s)); [(apply t_inv_quiet, quiet_emit; reflexivity)| |intros e s HI; apply op_post_err, HI].
+      intros _. destruct u as [|st i n|st|st|hs| | |fid]; try (apply t_ret; intros s HI; apply op_post_nolag; [exact HI|exact I]).
+      destruct (find_sched c fid) as [sc|] eqn:Ef; [|apply t_ret; intros s HI; apply op_post_nolag; [exact HI|exact I]].
+      rewrite <- (find_sched_fid fid sc Ef). apply guarded_t, sched_after_wait_t.
+Qed.
+
+(* ---------- operations and histories ---------- *)
+Definition op_ok (o : eop) : Prop :=
+  match o with
+  | OTrigger _ _ _ p | OCallback _ _ p | OCtl _ _ _ p | OStep _ _ p => nostale p
+  | OAdvance d => 0 <= d
+  | _ => True
+  end.
+
+Lemma toks_ok_rev tr : toks_ok c tr -> toks_ok c (rev tr).
+Proof. intros H. apply Forall_rev, H. Qed.
+
+Lemma run_api_ok (w : world) (p : plan) (m : M unit) :
+  WI w -> nostale p -> triple Inv m (fun _ s => Inv s) ->
+  WI (fst (run_api w p m)) /\ toks_ok c (snd (run_api w p m)).
+Proof.
+  intros HW Hp Hm. unfold run_api.
+  assert (H0 : Inv (mkOst w p [] [] true false)) by (split; [exact HW|split; [exact Hp|constructor]]).
+  specialize (Hm _ H0). destruct (m (mkOst w p [] [] true false)) as [[a|e] s]; cbn [fst snd] in *;
+    destruct Hm as (HW' & _ & Htr); (split; [exact HW'|]); apply toks_ok_rev, toks_ok_cons; try reflexivity; exact Htr.
+Qed.
+
+Lemma eunit_eqb_eq (a b : eunit) : eunit_eqb a b = true -> a = b.
+Proof.
+  destruct a, b; cbn; intros H; try discriminate; try reflexivity.
+  - apply andb_prop in H as [H H3]. apply andb_prop in H as [H1 H2]. apply Z.eqb_eq in H1, H2, H3. now subst.
+  - apply Z.eqb_eq in H. now subst.
+  - apply Z.eqb_eq in H. now subst.
+  - apply rs_eqb_eq in H. now subst.
+  - apply N.eqb_eq in H. now subst.
+Qed.
+
+Lemma WI_procs (w w' : world) :
+  w_recs w' = w_recs w -> w_nrun w' = w_nrun w -> w_now w' = w_now w -> w_log w' = w_log w -> w_outbox w' = w_outbox w ->
+  (forall x, In x (w_procs w') -> In x (w_procs w)) -> WI w -> WI w'.
+Proof.
+  intros E1 E2 E3 E4 E5 Hsub [H1 H2 H3 H4 H5 H6]. constructor; rewrite ?E1, ?E2, ?E3, ?E4, ?E5; try assumption.
+  intros p idx e d Hin. apply (H6 p idx e d), Hsub, Hin.
+Qed.
+
+Lemma crash_inst_WI (w : world) (inst : Z) : WI w -> WI (crash_inst w inst).
+Proof.
+  intros HW. eapply WI_procs; try exact HW; try reflexivity.
+  unfold crash_inst. cbn. intros x Hx. apply filter_In in Hx. apply Hx.
+Qed.
+
+Lemma put_pstate_WI (w : world) (inst : Z) (u : eunit) (ps : pstate) :
+  WI w -> (forall idx e d, ps = PLag idx e d -> ev_ok w u e) -> WI (put_pstate w (inst, u) ps).
+Proof.
+  intros [H1 H2 H3 H4 H5 H6] Hps. unfold put_pstate. constructor; cbn; try assumption.
+  intros p idx e d [Hx|Hx].
+  - inversion Hx; subst. cbn. apply (Hps idx e d eq_refl).
+  - apply filter_In in Hx as [Hx _]. apply (H6 p idx e d Hx).
+Qed.
+
+Lemma get_pstate_lag (w : world) (inst : Z) (u : eunit) idx e d :
+  WI w -> get_pstate w (inst, u) = PLag idx e d -> ev_ok w u e.
+Proof.
+  intros HW. unfold get_pstate. destruct (find_first _ (w_procs w)) as [x|] eqn:E; [|discriminate].
+  intros Hx. apply find_first_some in E as [Hin Hq]. destruct x as [[i' u'] ps]. cbn in *. subst ps.
+  unfold procid_eqb in Hq. cbn in Hq. apply andb_prop in Hq as [_ Hu]. apply eunit_eqb_eq in Hu. subst u'.
+  apply (wi_lag c w HW (i', u) idx e d Hin).
+Qed.
+
+Lemma run_op_ok (w : world) (o : eop) :
+  WI w -> op_ok o -> WI (fst (run_op c w o)) /\ toks_ok c (snd (run_op c w o)).
+Proof.
+  intros HW Hop. destruct o as [fid start seed p|fid status p|run op ui p|d|inst u p|inst|inst fid valid|inst u|u pos|idx]; cbn [run_op op_ok] in *.
+  - apply run_api_ok; [exact HW|exact Hop|apply api_trigger_t].
+  - apply run_api_ok; [exact HW|exact Hop|apply api_callbacks_t].
+  - destruct (run_api_ok w p (api_ctl c run op) HW Hop (api_ctl_t run op)) as [A B].
+    destruct (run_api w p (api_ctl c run op)) as [w' t]. cbn [fst snd] in *. split; [exact A|].
+    destruct ui; [|exact B]. clear -B. induction B as [|x l Hx Hl IH]; cbn; [constructor|].
+    constructor; [|exact IH]. destruct x; try exact Hx; reflexivity.
+  - (* clock advance *)
+    split; [|constructor]. destruct HW as [H1 H2 H3 H4 H5 H6]. constructor; cbn; try assumption.
+    intros r Hr. destruct (H3 r Hr) as (A & B & C & D). repeat split; try assumption. lia.
+  - (* a process step *)
+    set (ps := get_pstate w (inst, u)).
+    set (w1 := set_lost w (filter (fun x => negb (procid_eqb (inst, u) x)) (w_lost w))).
+    assert (HW1 : WI w1) by (eapply WI_frame; try exact HW; reflexivity).
+    match goal with |- context [proc_op c inst u ps ?s0] => set (s0' := s0) end.
+    assert (H0 : Inv s0' /\ forall idx e d, ps = PLag idx e d -> ev_ok (o_w s0') u e).
+    { split; [split; [exact HW1|split; [exact Hop|constructor]]|]. intros idx e d Hps. cbn.
+      destruct (get_pstate_lag w inst u idx e d HW Hps) as [A B]. split; assumption. }
+    pose proof (proc_op_t inst u ps s0' H0) as Hpost.
+    destruct (proc_op c inst u ps s0') as [[ps'|e] s]; cbn [fst snd] in *; destruct Hpost as [(HW' & _ & Htr) Hlag].
+    + split; [|apply toks_ok_rev, Htr].
+      assert (HWp : WI (put_pstate (o_w s) (inst, u) ps')).
+      { apply put_pstate_WI; [exact HW'|]. intros idx e d Hx. subst ps'. apply (Hlag idx e d eq_refl). }
+      destruct (o_dead s); [apply crash_inst_WI, HWp|exact HWp].
+    + split; [|apply toks_ok_rev, Htr]. destruct (o_dead s); [apply crash_inst_WI, HW'|exact HW'].
+  - split; [apply crash_inst_WI, HW|constructor].
+  - split; [exact HW|]. repeat constructor.
+  - destruct (get_pstate w (inst, u)); cbn [fst snd]; (split; [|constructor]); try exact HW; eapply WI_frame; try exact HW; reflexivity.
+  - split; [|constructor]. eapply WI_frame; try exact HW; reflexivity.
+  - (* a duplicated delivery *)
+    destruct (nth_error (w_log w) idx) as [e|] eqn:E; cbn [fst snd]; (split; [|constructor]); [|exact HW].
+    apply nth_error_In in E. destruct HW as [H1 H2 H3 H4 H5 H6]. constructor; cbn; try assumption.
+    + intros e' He' Ht. apply in_app_or in He' as [He'|[<-|[]]]; [apply H4; assumption|]. cbn in *. apply (H4 e E Ht).
+    + intros p i' e' d' Hin. destruct (H6 p i' e' d' Hin) as [A B]. split; [apply in_or_app; left; exact A|exact B].
+Qed.
+
+Lemma w0_WI : WI w0.
+Proof. constructor; cbn; try constructor; intros; contradiction. Qed.
+
+Lemma run_ops_from_ok (ops : list eop) :
+  Forall op_ok ops -> forall n w, WI w -> WI (fst (run_ops_from c n w ops)) /\ toks_ok c (snd (run_ops_from c n w ops)).
+Proof.
+  induction 1 as [|o tl Ho Htl IH]; intros n w HW; cbn [run_ops_from]; [split; [exact HW|constructor]|].
+  destruct (run_op_ok w o HW Ho) as [A B]. destruct (run_op c w o) as [w1 t1]. cbn [fst snd] in *.
+  destruct (IH (S n) w1 A) as [C D]. destruct (run_ops_from c (S n) w1 tl) as [w2 t2]. cbn [fst snd] in *.
+  split; [exact C|]. apply toks_ok_cons; [reflexivity|]. apply Forall_app. split; assumption.
+Qed.
+
+(* EVERY token of EVERY history satisfies the token-local clauses *)
+Theorem all_tokens_ok (ops : list eop) :
+  Forall op_ok ops -> Forall (fun t => tok_ok (ec_graph c) t = true) (snd (run_ops c ops)).
+Proof. intros H. apply (run_ops_from_ok ops H 0%nat w0 w0_WI). Qed.
 
 End Tokens.
